@@ -12,141 +12,139 @@ Definition show_fres (r : fres) : string :=
   end.
 Definition check (rs : list rune) : string := digest (show_fres (format_res rs)).
 Definition full (rs : list rune) : string := show_fres (format_res rs).
-Eval vm_compute in ("<<<M974>>>" ++ check (runes_of_ascii "options
-    { As
-= false}packet
-stringy { @calculatedFrom( """ ++ [128512]%N ++ runes_of_ascii """ ) @calculatedFrom( ""\n"" ) MetaDataX metadata
-, @tag(
-7 ) u64
-    packetx
-, u
-    // trailing space 
-    charz `// not a comment` , @rightPad
-(
-    ) repeat
-    i16	As`{ , }`
-// c
-//	t
-,@rightPad
-    (  ' '
-) /// triple
-@lengthOf(
-uint8x )
-msg_type { repeat options1 // " ++ [27880; 37322]%N ++ runes_of_ascii "
-{ //	t
-string
-body , } , repeat int8 T//
-,float32 len ,  pack
-/// triple
-// trailing space 
-{repeat u16 lengthOf `line1
-line2` ,  i32 len@lengthOf(	MetaDataX)
-    `" ++ [233]%N ++ runes_of_ascii "`
-,uint8x	{ BodyLength
-    @lengthOf(
-x
-) , zchar[255]falsey	@lengthOf(Logon ) `crlf
-line` , /// triple
-},u8x
-, } , /// triple
+Eval vm_compute in ("<<<M4168>>>" ++ check (runes_of_ascii "options {
+    ArrayPrefixLenType = u16;
+    FixedStringPadFromLeft = true;
+    JavaPackage = ""co\
+        m.example.msg"";
+    GoPackage = ""ms\
+        g"";
+    GoModule = ""example.com/msg"";
 }
-    // " ++ [27880; 37322]%N ++ runes_of_ascii "
-    , @lengthOf( matchKey
-) int ,} root packet Packet { uint16 u `a\`
-,
-    @leftPad ( '0'  )repeat
-//x
-// c
-msg_type
-{ falsey { repeatCount { uint32 As /// triple
-, char[] repeatCount ,} ,}
-, }
-    ,@leftPad (
-'0' )
-@tag(
-3) match
-    calculatedFrom as asx { ""{,}""  : float, 1 : MetaDataX
-""\" ++ [233]%N ++ runes_of_ascii """ // " ++ [27880; 37322]%N ++ runes_of_ascii "
-:	_x
-, 10
-    :
-string_ 0 : lengthOf
-} /// triple
-, u body
-    , f32 Pad
-    @lengthOf( MetaDataX )
-    // c
-    `" ++ [28040; 24687; 31867; 22411]%N ++ runes_of_ascii "` ,
-    zchar[ 42 ]
-u `{ , }`	, @calculatedFrom( ""\n"" )
-    // c
-    string
-T
-@lengthOf( tag //x
-)
-`say ""hi""` , // c
-@rightPad // c
-('0'
-    )
-match body as uint8x { [4294967296
-, 1 , 00,
-""x y""]
-    : a1 ,} , } packet
-a1 {@tag(
-    42
-)
-    u16 tag @lengthOf(MetaDataX
-    )
-,
-    uint64 int `tab	here` , string float
-    @lengthOf( packetx )// " ++ [128512]%N ++ runes_of_ascii " emoji
-`crlf
-line`
-    , float32 options1`it's` , @calculatedFrom( ""CRC32""	) uint8 crc , @tag( 1
-) metadata f32a
-    `" ++ [233]%N ++ runes_of_ascii "`
-, @rightPad( // packet A { u8 x, }
-'\x00'
-)
-@lengthOf(pack)	@tag( 0123456789 )float32 uint8x
-    @lengthOf(
-    u ) // packet A { u8 x, }
-,
-    //
-    } root packet i8i8
-{
-    match
-MetaDataX
-as
-o { ""// no comment""
-: options1
-,
-7
-: i8i8 [""{,}"", ""// no comment"",
-""" ++ [128512]%N ++ runes_of_ascii """ , 10 , ""\n""	,  ""// no comment"" ,
-""abc""
-    ] : As ,
-[ ""packet""
-    /// triple
-    ,  ""a\""b"", 10,""x y"",	""{,}"" ,
-007
-, 1,
-""// no comment""
-    ] :
-BodyLength ,
-} , // `tick` ""quote"" 'q'
-@tag( 42 )
-repeat string x_y_z	, f32a @calculatedFrom(
-""""	) ,match u128 // a // b
-as // a // b
-Z9_ { """ ++ [28040; 24687]%N ++ runes_of_ascii """ : lengthOf ""\" ++ [233]%N ++ runes_of_ascii """
-//
-// `tick` ""quote"" 'q'
-: string_ ,}, @tag( 4294967296	)  u64 f32a , string	roots@calculatedFrom(	""\" ++ [233]%N ++ runes_of_ascii """ ) // `tick` ""quote"" 'q'
-`// not a comment`
-, //	t
+
+MetaData Meta {
+    u32 SeqNum `sequence number`,
+    char[8] Symbol `symbol`,
+    zchar[5] ZSym `z symbol`,
+    string Note,
+    Symbol AltSymbol `alias of symbol`,
+    f64 Price,
 }
-")).
+
+packet Inner {
+    u8 a,
+    i16 b,
+    string c,
+}
+
+packet Inner2 {
+    u8 a2,
+    char[3] c2,
+}
+
+packet Logon {
+    u8 x,
+    string user,
+    repeat u16 codes,
+}
+
+packet Logout {
+    u16 reason,
+}
+
+packet Empty {
+}
+
+root packet Msg {
+    u8 su8,
+    uint8 luint8,
+    u16 su16,
+    uint16 luint16,
+    u32 su32,
+    uint32 luint32,
+    u64 su64,
+    uint64 luint64,
+    i8 si8,
+    int8 lint8,
+    i16 si16,
+    int16 lint16,
+    i32 si32,
+    int32 lint32,
+    i64 si64,
+    int64 lint64,
+    f32 sf32,
+    float32 lfloat32,
+    f64 sf64,
+    float64 lfloat64,
+    char[6] fsplain,
+    @leftPad('0')
+    char[4] fs0,
+    @rightPad('0')
+    char[5] fs1,
+    @leftPad(' ')
+    char[6] fs2,
+    @rightPad(' ')
+    char[7] fs3,
+    @leftPad('\x00')
+    char[8] fs4,
+    @rightPad('\x00')
+    char[9] fs5,
+    @leftPad()
+    char[10] fs6,
+    @rightPad()
+    char[11] fs7,
+    zchar[7] fz,
+    @leftPad('0')
+    zchar[3] fzl0,
+    string s1 `doc`,
+    char[] s2,
+    Inner,
+    Sub {
+        u8 q,
+        string w,
+        Deep {
+            u16 z,
+            repeat i32 zs,
+        },
+    },
+    repeat u8 ru8,
+    repeat u16 ru16,
+    repeat u32 ru32,
+    repeat u64 ru64,
+    repeat i8 ri8,
+    repeat i16 ri16,
+    repeat i32 ri32,
+    repeat i64 ri64,
+    repeat f32 rf32,
+    repeat f64 rf64,
+    repeat string rstr,
+    repeat char[] rstr2,
+    repeat char[3] rfs,
+    repeat zchar[3] rfz,
+    repeat Inner2,
+    repeat Grp {
+        u8 k,
+        char[2] v,
+    },
+    SeqNum,
+    SeqNum seq2,
+    repeat SeqNum seqs,
+    Symbol,
+    AltSymbol alt,
+    ZSym,
+    Note,
+    repeat Symbol syms,
+    Price px,
+    u16 MsgType,
+    u32 BodyLen @lengthOf(Body),
+    match MsgType as Body {
+        1 : Logon,
+        [2, 3] : Logout,
+        7 : Logon,
+        9 : Empty,
+    },
+    u32 Checksum @calculatedFrom(""CRC32""),
+}")).
 Eval vm_compute in ("<<<M928>>>" ++ check (runes_of_ascii "
 MetaData A
 {
@@ -358,1575 +356,1630 @@ body ,
 } ,zchar[  10 ]
     // " ++ [27880; 37322]%N ++ runes_of_ascii "
     Logon, }	packet Packet { } // " ++ [27880; 37322]%N)).
-Eval vm_compute in ("<<<M3842>>>" ++ check (runes_of_ascii "packet u {
-    @calculatedFrom(""1"")
-    match o as float {
-        ""x y"" : u,
-    },
-    match packetx as f32a {
-        // a // b
-        // c
-        [4294967296, 3] : x,
-        10 : i8i8,
-        """ ++ [233]%N ++ runes_of_ascii "t" ++ [233]%N ++ runes_of_ascii """ : _x,
-        [
-            42, 4294967296, ""a	b"", """ ++ [28040; 24687]%N ++ runes_of_ascii """, ""1"",
-            ""a\\"", ""a	b""
-        ] : Header,
-        //
-        65535 : i8i8,
-        0123456789 : repeatCount,
-    },
-    repeat stringy {
-        //	t
-        char[0] Logon `{ , }`,
-        Pad `a\`,
-        asx BodyLength `line1
-        line2`,
-        repeat string Z9_,
-    },
-    f32a metadata `" ++ [28040; 24687; 31867; 22411]%N ++ runes_of_ascii "`,
-    @calculatedFrom(""a\""b"")
-    metadata {
-        Z9_ @calculatedFrom(""" ++ [233]%N ++ runes_of_ascii "t" ++ [233]%N ++ runes_of_ascii """),
-        repeat zchar[1] options1 `say ""hi""`,
-        i8 options1,
-        roots {
-            string packetx,
-            repeat char[65535] x,
-        },
-    },
-    int8 matchKey,
-    metadata @lengthOf(roots),
-    string u @lengthOf(As),
-}
-
-packet x_y_z {
-    // " ++ [128512]%N ++ runes_of_ascii " emoji
-    len o,
-    match string_ as Foo {
-        [
-            255, 255, 007, """ ++ [233]%N ++ runes_of_ascii "t" ++ [233]%N ++ runes_of_ascii """, ""a\""b"",
-            ""abc""
-        ] : a1,
-        ""CRC32"" : matchKey,
-    },
-    @lengthOf(int)
-    @calculatedFrom(""1"")
-    @calculatedFrom(""it's"")
-    char[0] matchKey @calculatedFrom(""`tick`""),
-    match a1 as Z9_ {
-        [65535, ""CRC32""] : x,
-        [0123456789, """ ++ [233]%N ++ runes_of_ascii "t" ++ [233]%N ++ runes_of_ascii """] : packetx,
-        ""packet"" : msg_type,
-        10 : o,
-    },
-    @lengthOf(repeatCount)
-    f32 As,
-    @tag(3)
-    string_,
-}")).
-Eval vm_compute in ("<<<M266>>>" ++ check (runes_of_ascii "packet asx { Logon{ body
-@calculatedFrom( // trailing space 
-""it's"" ) , // @lengthOf(
-char[ 3] MetaDataX , string
-    leftPad `crlf
-line` , u128@calculatedFrom( ""packet""
-    ),} , } //x
-packet
-x_y_z
-    // packet A { u8 x, }
-    { len {
-    match leftPad// c
-as
-rootA {[007 // trailing space 
-, ""a\\"" , 0123456789,
-    ""\" ++ [233]%N ++ runes_of_ascii """ , ""`tick`"" , ""{,}""
-    ] : falsey , 4294967296:	matchKey
-, // packet A { u8 x, }
-}
-    , int32 //	t
-Z9_ // " ++ [27880; 37322]%N ++ runes_of_ascii "
-,a1
+Eval vm_compute in ("<<<M972>>>" ++ check (runes_of_ascii "packet u/// triple
 {
-    x_y_z ,
-    repeat	_x `doc` , char[]falsey
-    @lengthOf(u128) `doc` ,
-    }/// triple
-,match Foo as
-stringy {7 : asx // " ++ [128512]%N ++ runes_of_ascii " emoji
-, ""x y""	:
-    calculatedFrom
-, }
-    , }, @lengthOf(i64_ ) @rightPad ( /// triple
-'\x00'// @lengthOf(
-)@tag( 42 )  char[]
-repeatCount ,
-match	Z9_ //x
-as  int {[//x
-""a	b"" ,	""abc""
-    , 255 , 7 // " ++ [128512]%N ++ runes_of_ascii " emoji
-] :asx
-""1"" : chars , [ ""a	b"", 00 ,4294967296 ] :
-leftPad , [
-65535
-, //x
-0 , //	t
-""abc"" // a // b
-, ""it's"", 007 ,
-    ""x y"" ,
-    255,3 ]  :
-leftPad
-    , [
-    //x
-    4294967296]: u
-,
-// " ++ [128512]%N ++ runes_of_ascii " emoji
-// " ++ [128512]%N ++ runes_of_ascii " emoji
-0123456789 :a1  } ,
-x_y_z  u8x ,  asx{ repeat
-Header float `crlf
-line`
-    , rootA
-charz// " ++ [128512]%N ++ runes_of_ascii " emoji
-`a\` , } , @calculatedFrom(""CRC32"" ) string string_
-,  @tag(
-65535 )  @rightPad ( '\x00' ) u8x	a1 `{ , }` , } options { // c
-float = // " ++ [27880; 37322]%N ++ runes_of_ascii "
-007 }
-root // c
-packet
-metadata {
-}
-")).
-Eval vm_compute in ("<<<M134>>>" ++ check (runes_of_ascii "packet As { options1
-    { i16 o , } , i64 roots ,repeat char[] o
-    `a\` , @calculatedFrom( ""1""//x
-)  repeatCount	@lengthOf(/// triple
-falsey /// triple
-)
-// packet A { u8 x, }
-// " ++ [128512]%N ++ runes_of_ascii " emoji
-`a\` ,
-@lengthOf( stringy ) char[]	As
-`" ++ [233]%N ++ runes_of_ascii "` ,
-asx {match msg_type as
-chars { //	t
-00: metadata
-    // `tick` ""quote"" 'q'
+@calculatedFrom( ""1"" ) match o as float{
+""x y""	:
+    u
     , }
-    , i8 pack// c
-@calculatedFrom(
-    /// triple
-    ""x y"" )
-// trailing space 
+    ,match packetx as
+    f32a {
 // a // b
-,//	t
-match u8x as	rootA{
-""1"": a1
-, [
-    // packet A { u8 x, }
-    4294967296 ]
-:msg_type
-//
-//x
-,
-}
-, } // a // b
+// c
+[ 4294967296 ,3] :
+x , 10
+: i8i8, """ ++ [233]%N ++ runes_of_ascii "t" ++ [233]%N ++ runes_of_ascii """ : _x [
+    // `tick` ""quote"" 'q'
+    ""a	b""
+, """ ++ [28040; 24687]%N ++ runes_of_ascii """
+    //	t
+    ,
+    ""1"",""a\\"" ,42 , 4294967296
+    , ""a	b""] :
+    Header ,//
+65535 : i8i8 , 0123456789 :repeatCount ,
+    }
+    ,
+repeat
+stringy { //	t
+char[	0
+]
+Logon	`{ , }`, Pad `a\`
+, asx
+    BodyLength`line1
+line2` ,
+    repeat string
+    Z9_, } ,
+    f32a metadata `" ++ [28040; 24687; 31867; 22411]%N ++ runes_of_ascii "`
 , @calculatedFrom(
-""" ++ [233]%N ++ runes_of_ascii "t" ++ [233]%N ++ runes_of_ascii """ ) int16 roots ,
-    @tag(1 )	@leftPad ( '0' ) @rightPad // " ++ [27880; 37322]%N ++ runes_of_ascii "
-( '\x00'
-)i32 asx `tab	here`	,char Logon `u8 x,` // trailing space 
-,  }
-root	packet string_ {// @lengthOf(
-}packet Z9_ { int8 _x
-, repeat u8 uint8x `" ++ [233]%N ++ runes_of_ascii "`
-,
-float64 x_y_z @calculatedFrom(	""x y"" )
-    , @calculatedFrom(	""a\""b"" ) @calculatedFrom( ""a\""b"" )
-    int
-{zchar[255
-] //
-msg_type,  i64_
-    // trailing space 
-    {
-    stringy @lengthOf(x_y_z )
-    , u
-    options1
-    //
-    `tab	here` ,
-char[0123456789 ] msg_type ,float32
-    Foo `{ , }`
-    , } , } ,  @tag(	0
-)
-    @calculatedFrom( ""CRC32"" ) charz , @tag(
-    // @lengthOf(
-    4294967296 )
-i64 packetx ,  } //	t")).
-Eval vm_compute in ("<<<M3820>>>" ++ check (runes_of_ascii "options {
-}
-
-MetaData x_y_z {
-    string_ packetx,
-    metadata o,
-    char[3] charz,
-    zchar charz,
-}
-
-MetaData T {
-    zchar[3] len,
-    u x_y_z,
-    u64 A,
-}
-
-packet zchar {
-    @tag(4294967296)
-    @calculatedFrom(""" ++ [233]%N ++ runes_of_ascii "t" ++ [233]%N ++ runes_of_ascii """)
-    @calculatedFrom(""abc"")
-    match tag as tag {
-        """" : stringy,
-        """ ++ [28040; 24687]%N ++ runes_of_ascii """ : f32a,
-        4294967296 : matchKey,
-        0 : msg_type,
-        7 : Logon,
-        7 : trueish,
-    },
-    roots @calculatedFrom(""" ++ [233]%N ++ runes_of_ascii "t" ++ [233]%N ++ runes_of_ascii """),
-    BodyLength `" ++ [233]%N ++ runes_of_ascii "`,
-    repeat int zchar `
-    `,
-    @leftPad()
-    body @calculatedFrom(""" ++ [233]%N ++ runes_of_ascii "t" ++ [233]%N ++ runes_of_ascii """),
-}
-
-packet Packet {
-    @lengthOf(uint8x)
-    // @lengthOf(
-    i64_ {
-        u128 {
-            stringy,
-        },
-    },
-    T MetaDataX `u8 x,`,
-    @calculatedFrom("""")
-    @lengthOf(x_y_z)
-    @calculatedFrom(""1"")
-    uint32 charz @calculatedFrom(""`tick`"") `" ++ [233]%N ++ runes_of_ascii "`,
-    // @lengthOf(
-    string u8x @calculatedFrom(""\" ++ [233]%N ++ runes_of_ascii """) `line1
-    line2`,
-    @leftPad()
-    string tag @lengthOf(f32a) `" ++ [233]%N ++ runes_of_ascii "`,
-    @rightPad()
-    @tag(7)
-    @lengthOf(rootA)
-    // " ++ [128512]%N ++ runes_of_ascii " emoji
-    repeat T matchKey,
-    @lengthOf(metadata)
-    zchar[10] _x @lengthOf(a1),
-    @leftPad()
-    f32a o `{ , }`,
-}")).
-Eval vm_compute in ("<<<M4282>>>" ++ check (runes_of_ascii "root packet As {
-    @calculatedFrom(""{,}"")
-    zchar[4294967296] As,
-    @tag(7)
-    repeat pack {
-        body {
-            // trailing space 
-            zchar[65535] MetaDataX `doc`,
-            string_ @lengthOf(Logon),
-            i64 MetaDataX @calculatedFrom("""") `a\`,//x
-            repeat char[] Foo,
-        },
-    },
-    @lengthOf(MetaDataX)
-    @calculatedFrom(""\n"")
-    @lengthOf(float)
-    char[0123456789] a1 @calculatedFrom(""a\""b""),
-    repeat msg_type {
-        // `tick` ""quote"" 'q'
-        repeat f64 Packet `a\`,
-        int64 asx @calculatedFrom(""{,}"") `" ++ [233]%N ++ runes_of_ascii "`,
-        zchar[3] metadata,
-        zchar[00] x_y_z @calculatedFrom(""CRC32""),
-    },
-}
-
-packet calculatedFrom {
-    match calculatedFrom as BodyLength {
-        65535 : Foo,
-    },
-    match int as falsey {
-        42 : body,
-        [""abc"", ""\n"", ""abc"", """ ++ [28040; 24687]%N ++ runes_of_ascii """] : stringy,
-        [0123456789, 42, 1, ""{,}""] : trueish,
-        ""`tick`"" : metadata,
-        [42, ""1"", ""a	b""] : zchar,
-    },
-    repeat zchar[4294967296] stringy `line1
-    line2`,
-}
-
-options {
-    stringy = ' ';
-}")).
-Eval vm_compute in ("<<<M1236>>>" ++ check (runes_of_ascii "
-packet
-roots
-    {f32 zchar @calculatedFrom( ""a	b""	) `crlf
-line`
-,
-// @lengthOf(
-/// triple
-uint8x
-`tab	here`// `tick` ""quote"" 'q'
-, @rightPad ( // a // b
-)
-@rightPad ( '\x00' ) string int
-@lengthOf( body
-// " ++ [128512]%N ++ runes_of_ascii " emoji
-//	t
-)
-,charz { repeat zchar{BodyLength
-// " ++ [27880; 37322]%N ++ runes_of_ascii "
-// c
-@lengthOf( int // a // b
-) , } , }	, @rightPad (
-' ' ) repeat
-    asx metadata  `it's`
-    ,
-float64 trueish ,repeat//	t
-char[ 42] // " ++ [128512]%N ++ runes_of_ascii " emoji
-body`a\` ,	@rightPad
-    (
-'0' )u32  body
-    `tab	here` , } // `tick` ""quote"" 'q'
-packet chars { @calculatedFrom(
-    ""packet"" ) zchar[ 65535
-]_x , float
-    As`line1
-line2`// c
-, u64 asx @calculatedFrom(
-""1"")
-`u8 x,`
-,crc	@lengthOf(  msg_type ) ,
-    @tag(
-    00 ) //x
-@rightPad
-    (// @lengthOf(
-' ' // c
-) /// triple
-@calculatedFrom( """ ++ [233]%N ++ runes_of_ascii "t" ++ [233]%N ++ runes_of_ascii """ // " ++ [128512]%N ++ runes_of_ascii " emoji
-) uint8
-    calculatedFrom , }options {  Packet =' '
-; Logon
-/// triple
-// trailing space 
-=255
-BodyLength =""// no comment""
-} options { float =
-""a	b"" ; f32a= """ ++ [28040; 24687]%N ++ runes_of_ascii """
-    //	t
-    len =
-    uint64 ;
-    calculatedFrom='0' // " ++ [27880; 37322]%N ++ runes_of_ascii "
-; }")).
-Eval vm_compute in ("<<<M3932>>>" ++ check (runes_of_ascii "packet leftPad {
-}
-
-packet u {
-    @leftPad(' ')
-    char[65535] leftPad,
-    int8 packetx,
-    string stringy `crlf
-        line`,
-    @leftPad(' ')
-    // " ++ [128512]%N ++ runes_of_ascii " emoji
-    i64 x @lengthOf(u) `" ++ [28040; 24687; 31867; 22411]%N ++ runes_of_ascii "`,
-    @lengthOf(pack)
-    // a // b
-    //
-    u64 asx @lengthOf(repeatCount) `u8 x,`,
-    o A,
-}
-
-root packet charz {
-    char[] repeatCount @lengthOf(tag) ``,
-    repeat pack `a\`,
-    @calculatedFrom(""// no comment"")
-    T {
-        string rootA @calculatedFrom(""{,}""),
-    },
-    repeat As Foo,
-    char[3] trueish,
-    @calculatedFrom("""")
-    @lengthOf(metadata)
-    @leftPad('0')
-    repeat u64 float `{ , }`,
-    stringy {
-        // packet A { u8 x, }
-        // c
-        metadata {
-            u8 f32a `two words`,
-            repeat char[007] f32a `
-                        `,
-        },
-        u32 asx @calculatedFrom(""" ++ [233]%N ++ runes_of_ascii "t" ++ [233]%N ++ runes_of_ascii """),
-        float64 i8i8,//x
-    },
-    // c
-    // " ++ [27880; 37322]%N ++ runes_of_ascii "
-    match lengthOf as zchar {
-        00 : o,
-    },
-}")).
-Eval vm_compute in ("<<<M431>>>" ++ check (runes_of_ascii "// a // b
-packet
-body{ @lengthOf( tag
-    // trailing space 
-    ) char[
-255 ] Packet
-    , @leftPad
-() @rightPad ('0'
-) repeat Pad
-    { repeat char[007 ]	As ,
-    } ,
-match Header	as crc
-{007
-: Logon[""a\""b"" , 0
-] :_x,255
-:
-    _x// trailing space 
-, 3 :
-    pack
-,""a\\""	:
-    _x  , ""CRC32"" : repeatCount// trailing space 
-,
-}
-// `tick` ""quote"" 'q'
-// " ++ [128512]%N ++ runes_of_ascii " emoji
-,
-    @lengthOf( MetaDataX
-    )	charz
-    chars // @lengthOf(
-`it's` ,@tag(
-    10//
-) match a1 as x_y_z {
-    ""// no comment"":Foo
-    , [ ""// no comment"" ,10 ]
-: roots , } , }	packet options1 {
-}  packet asx { @rightPad (' '
-) match string_ as MetaDataX//x
-{[ 42 , // trailing space 
-3 ,  ""abc"" ,	7  ]: rootA
-, 0123456789 :BodyLength
-""abc"" :BodyLength , ""x y"" :
-    metadata ,}
-,}MetaData
-u128
-    { string  rootA	,	}
-MetaData _x {i8i8 matchKey `it's`
-//	t
-// a // b
-, uint32 len ,	tag options1 ,char[ 1
-    ] x,}")).
-Eval vm_compute in ("<<<M19>>>" ++ check (runes_of_ascii "packet
-int // " ++ [27880; 37322]%N ++ runes_of_ascii "
-{ repeat // @lengthOf(
-MetaDataX // a // b
-{ //	t
-pack
-    { repeat Pad	{ i8 MetaDataX
-, repeat pack	trueish ,
-u
-    // trailing space 
-    charz	`" ++ [233]%N ++ runes_of_ascii "` ,string
-int
-, }	, f64 Z9_
-    ,
-} ,
-} // c
-,	} packet trueish {
-@lengthOf(
-    u)uint8 metadata
-    `" ++ [28040; 24687; 31867; 22411]%N ++ runes_of_ascii "` , match	uint8x
-as roots
-{ """ ++ [233]%N ++ runes_of_ascii "t" ++ [233]%N ++ runes_of_ascii """:
-    Pad 0123456789
-: msg_type// " ++ [27880; 37322]%N ++ runes_of_ascii "
-[ ""1"" ,	0 ,10] //	t
-:
-pack,
-[ ""it's"" ,  ""\" ++ [233]%N ++ runes_of_ascii """ ] :u8x
-, [// " ++ [128512]%N ++ runes_of_ascii " emoji
-0123456789 ] :
-MetaDataX
-    // packet A { u8 x, }
-    , },zchar[	00 ] pack @lengthOf( string_ ),// packet A { u8 x, }
-@tag( 4294967296 )
-x_y_z string_ ,
-    } options {A
-    =true float  =	""" ++ [28040; 24687]%N ++ runes_of_ascii """ ; }
-MetaData Header { zchar[//
-7 // `tick` ""quote"" 'q'
-]u128
-, char[]
-/// triple
-// trailing space 
-u , string_ metadata	,
-uint32 f32a `u8 x,` , } options{// trailing space 
-roots
-    =
-    true;
-int =false ; string_=
-"""" }")).
-Eval vm_compute in ("<<<M1071>>>" ++ check (runes_of_ascii "packet Logon {string rootA	, rootA
-    {	match
-    repeatCount as int {
-    ""{,}"" :	zchar , 65535  : repeatCount // packet A { u8 x, }
-,
-// " ++ [128512]%N ++ runes_of_ascii " emoji
-/// triple
-007 //	t
-://
-i8i8 007 : x,007: matchKey
-, }  ,zchar[ 0123456789] float ,} ,uint64 // @lengthOf(
-string_	`// not a comment` ,	repeat MetaDataX ,	} options { Z9_= '0' ;
-    A // " ++ [128512]%N ++ runes_of_ascii " emoji
-= 1 ;x_y_z = true ;// a // b
-T = false  ;
-    }  packet crc{
-//x
-// `tick` ""quote"" 'q'
-@lengthOf(
-    repeatCount )
-    char[] calculatedFrom @lengthOf( lengthOf
-// @lengthOf(
-// " ++ [128512]%N ++ runes_of_ascii " emoji
-) `a\`
-, } packet Foo {
-    //
-    match uint8x as tag { [ 3 ,""`tick`"" ,	""packet""
-    , ""// no comment""
-// trailing space 
-// " ++ [27880; 37322]%N ++ runes_of_ascii "
-,	""a	b"" ,
-    007
-    ] :
-    Header	,
-7 :	_x , // a // b
-10 :
-    falsey ,
-""\n"" :
-    falsey	,255	: rootA , } ,
-    }
-
-")).
-Eval vm_compute in ("<<<M4232>>>" ++ check (runes_of_ascii "/// triple
-packet matchKey {
-    // `tick` ""quote"" 'q'
-    repeatCount `line1
-    line2`,
-    @calculatedFrom(""1"")
-    u128 @calculatedFrom(""\" ++ [233]%N ++ runes_of_ascii """),// @lengthOf(
-    @calculatedFrom(""abc"")
-    repeat int uint8x,
-    Packet @lengthOf(trueish),
-    @tag(3)
-    rootA @lengthOf(asx) `it's`,
-    repeat tag body,
-    @lengthOf(_x)
-    @calculatedFrom(""1"")
-    @leftPad('0')
-    i8 i64_ @calculatedFrom(""a\""b""),
-}
-
-packet x_y_z {
-    @tag(7)
-    match Z9_ as i64_ {
-        """" : roots,
-        ""`tick`"" : T,
-        007 : zchar,
-        [
-            4294967296, 7, 4294967296, 4294967296, 10,
-            255, ""\" ++ [233]%N ++ runes_of_ascii """
-        ] : pack,
-        1 : asx,
-        ""CRC32"" : x_y_z,
-    },// a // b
-}
-
-options {
-}
-
-root packet packetx {
-    i8i8 @lengthOf(u128),
-}")).
-Eval vm_compute in ("<<<M4036>>>" ++ check (runes_of_ascii "packet _x {
-    metadata @lengthOf(i64_),
-    match trueish as int {
-        [255, """"] : T,
-        65535 : zchar,
-    },
-    @calculatedFrom(""a\""b"")
-    match leftPad as len {
-        ""x y"" : Z9_,
-        [0, 007, ""x y""] : falsey,
-    },
-}
-
-root packet As {
-    string int,
-    @tag(255)
-    @lengthOf(roots)
-    @calculatedFrom(""" ++ [128512]%N ++ runes_of_ascii """)
-    repeat crc {
-        repeat char trueish,// " ++ [128512]%N ++ runes_of_ascii " emoji
-    },
-    zchar[4294967296] options1 @calculatedFrom(""CRC32""),
-    match packetx as lengthOf {
-        ""a\""b"" : options1,
-        0123456789 : Foo,
-        ""a\\"" : trueish,
-        3 : string_,
-        ""\n"" : zchar,
-        [65535] : u128,
-    },
-    @tag(42)
-    @leftPad('\x00')
-    i16 crc,
-}
-
-packet lengthOf {
-}")).
-Eval vm_compute in ("<<<M4520>>>" ++ check (runes_of_ascii "
-root
-    packet
-Foo
-	{  u64
-calculatedFrom
-    @lengthOf(
-
-    u )
-    ,
-	u16 len  , match metadata	as  a1
-    {
-// `tick` ""quote"" 'q'
-  // " ++ [27880; 37322]%N ++ runes_of_ascii "
-	255 :
-
-    roots,10: i8i8
-[ // a // b
-
-00  ]:i8i8
-    , [
-""abc""
-]
-:
-Header,	[ 
-    // packet A { u8 x, }
-	00
-] 	 // packet A { u8 x, }
-    	: x
-, 
-""abc"" :Logon
-}  ,
-
-    @leftPad
-
-('0' 
-) 	 // " ++ [27880; 37322]%N ++ runes_of_ascii "
-	Pad  {  zchar[10 ]asx	`{ , }`
-
-    ,
-Header@calculatedFrom(""a\\""	),
-repeat T ,int16  roots`// not a comment`
-	, }
-
-    ,}packet
-
-o
-
-    { 
-@tag(00
-    ) 
-@leftPad
-(	'\x00' 
-  // `tick` ""quote"" 'q'
-  //x
-    	)
-	Z9_
-    //	t
-	//
-  @calculatedFrom( ""CRC32""	) ,
-@lengthOf( crc
-        //x
-  	//
-      )zchar
-
-,
-}
-
-")).
-Eval vm_compute in ("<<<M675>>>" ++ check (runes_of_ascii "packet uint8x {@lengthOf( Z9_) match A as As { 3
-    : float,""x y"" :
-    pack
-, 255  :
+""a\""b"" )
+    metadata { Z9_ @calculatedFrom( """ ++ [233]%N ++ runes_of_ascii "t" ++ [233]%N ++ runes_of_ascii """ ) ,  repeat zchar[  1 ] //
+options1 `say ""hi""` , i8 options1,
     roots
-    ,
-    [  ""\n""]	: int
-    , // " ++ [27880; 37322]%N ++ runes_of_ascii "
-[ // @lengthOf(
-""CRC32"" , ""1""] :
-    len , } ,char[] options1`{ , }` ,	@tag(
-    255  )	f32a @calculatedFrom( """ ++ [28040; 24687]%N ++ runes_of_ascii """)`// not a comment` ,match
-    x as pack{ ""// no comment"" : roots //
+{string packetx ,
+repeat char[//x
+65535 ] x // trailing space 
 ,
-    """ ++ [233]%N ++ runes_of_ascii "t" ++ [233]%N ++ runes_of_ascii """ :	asx, [ ""1"",
-""abc"" , 4294967296
-    , """ ++ [128512]%N ++ runes_of_ascii """  ]
-    // `tick` ""quote"" 'q'
-    :crc , ""{,}"" :
-    // a // b
-    As
-00 //
-: string_
-    ,
-}
-, Logon ,
-    } packet tag { // " ++ [27880; 37322]%N ++ runes_of_ascii "
-@tag(00
-)a1 { u8
-zchar
-`` , }, @rightPad ( ' '
-    )o i8i8 , f64 Logon @lengthOf(options1)
-    , }
-    packet pack{ }
-// a // b
-")).
-Eval vm_compute in ("<<<M312>>>" ++ check (runes_of_ascii "packet BodyLength // " ++ [27880; 37322]%N ++ runes_of_ascii "
-{ char[ 255 // " ++ [27880; 37322]%N ++ runes_of_ascii "
-]	_x, match body as repeatCount
-    { ""{,}"" :
-len }
-    , char[
-    0] Logon @calculatedFrom(	""{,}"" ) ,
-    // a // b
-    @rightPad() i64_//x
-@calculatedFrom( ""it's"" )
-    `crlf
-line` , } packet
-Header {
-match As as
-    chars
-{
-7: packetx , [ ""it's""  ]: u128
-,
-    [
-    4294967296 , ""{,}"" ] : f32a ,} ,
-    }packet asx { @calculatedFrom( ""1""
-)
-    a1
-// @lengthOf(
-//
-,
-//
-//x
-match x_y_z as  crc /// triple
-{
-// `tick` ""quote"" 'q'
-// `tick` ""quote"" 'q'
-""CRC32"" : As
-, 7
-:o , //x
-} ,match msg_type as Packet {""" ++ [233]%N ++ runes_of_ascii "t" ++ [233]%N ++ runes_of_ascii """ : metadata }, repeat u8
-i64_ ,// a // b
-}")).
-Eval vm_compute in ("<<<M4045>>>" ++ check (runes_of_ascii "
-root packet
-	pack{
-@calculatedFrom(	""`tick`""
-	)@calculatedFrom(  
-  // " ++ [128512]%N ++ runes_of_ascii " emoji
-		""\n""	)@tag( 0123456789 )
-	match
-zchar 
-as
-string_
-{[
-""packet""
-
-]//
-
-	:
-    i8i8
-, [
-	0123456789 , 7 ]  :  string_
-
-    ,
-//x
-
-	// `tick` ""quote"" 'q'
-0
-
-    : options1
-
-    , ""\" ++ [233]%N ++ runes_of_ascii """
-:	// `tick` ""quote"" 'q'
-Foo ,
-    }
-
-,	@lengthOf(  calculatedFrom	)  Foo
-@lengthOf( x
-)	`crlf
-line`, lengthOf  @lengthOf(int
-	)  , T	,
-
-    @lengthOf( rootA
-	)
-zchar[ 
-007  ]
-
-    // " ++ [128512]%N ++ runes_of_ascii " emoji
-		// packet A { u8 x, }
-
-x`crlf
-line`
-,
-@calculatedFrom(
-
-""\n"" ) 
-repeat
-    f64 chars
-,matchKey
-    _x	,
-	}
-")).
-Eval vm_compute in ("<<<M4353>>>" ++ check (runes_of_ascii "packet metadata {
-    @tag(7)
-    body {
-        u8x As `line1
-                line2`,
-        match MetaDataX as float {
-            10 : msg_type,
-            7 : o,
-        },// " ++ [27880; 37322]%N ++ runes_of_ascii "
-    },
-    _x {
-        repeat falsey `
-                `,
-        match x_y_z as Packet {
-            """ ++ [28040; 24687]%N ++ runes_of_ascii """ : u8x,
-        },
-        zchar @calculatedFrom(""" ++ [233]%N ++ runes_of_ascii "t" ++ [233]%N ++ runes_of_ascii """),
-    },// trailing space 
-    @lengthOf(stringy)
-    i64_ @lengthOf(_x) ``,/// triple
-}
-
-//x
-//x
-packet asx {
-    @leftPad('\x00')
-    i64 repeatCount,
-    @lengthOf(lengthOf)
-    repeat float32 Logon,
-}")).
-Eval vm_compute in ("<<<M432>>>" ++ check (runes_of_ascii "packet A {Logon// @lengthOf(
-o
-,	u8x{ // @lengthOf(
-asx // " ++ [27880; 37322]%N ++ runes_of_ascii "
-chars, }
-    , x o
-,@leftPad
-    ( )// trailing space 
-As
-// c
-//x
-@lengthOf(
-u)	,}MetaData f32a{crc
-    Logon ,}	root packet
-    u128 {stringy Logon// " ++ [128512]%N ++ runes_of_ascii " emoji
-`a\`, @calculatedFrom( // c
-""1""
-)	@leftPad
-    // a // b
-    ( '\x00' ) @tag(255 )int64 stringy @lengthOf(lengthOf //	t
-) `line1
-line2`, rootA `
-`,@calculatedFrom( ""a	b""
-    )// packet A { u8 x, }
-o
-@calculatedFrom(  ""`tick`"" ) // @lengthOf(
-`a\`
-, repeatCount @lengthOf(
-    T ) // @lengthOf(
-, }
-")).
-Eval vm_compute in ("<<<M793>>>" ++ check (runes_of_ascii "options{ Header = ' ' } root
-packet lengthOf{ uint8 chars , @leftPad (  '\x00' ) repeat
-    u128 {match	Header as	msg_type{ 007	:roots  , }
-// c
-//	t
-, A
-o ,
-match Header as
-options1 { 00 : float,""1"": int , """ ++ [128512]%N ++ runes_of_ascii """
-: T , [
-    ""a\\""
-// " ++ [128512]%N ++ runes_of_ascii " emoji
-// packet A { u8 x, }
-,""// no comment""
-// a // b
-// packet A { u8 x, }
-] //	t
-: Foo	0123456789	:
-    matchKey , } ,repeat
-    o ,
-}, } packet x_y_z { repeat stringy A  , @tag(  42 ) char[
-    007 ]  Logon ,@leftPad ('\x00'
-    )  zchar[
-007 ]MetaDataX
-, }")).
-Eval vm_compute in ("<<<M293>>>" ++ check (runes_of_ascii "root
-    packet
-//	t
-// c
-charz{
-f32 stringy // @lengthOf(
-, @rightPad ( '\x00'
-    ) metadata
-    { MetaDataX
-A
-    // `tick` ""quote"" 'q'
-    , }
-,
-repeat zchar[ 0/// triple
-] u8x , @calculatedFrom( // @lengthOf(
-""it's"")
-    match trueish as
-u128 { ""{,}"" :
-    stringy
-} ,}
-    packet Packet
-{char[ 3]  int @calculatedFrom( ""x y""
-) ,
-}
-MetaData Packet { u128 trueish `" ++ [28040; 24687; 31867; 22411]%N ++ runes_of_ascii "` , int8 pack,
-    // packet A { u8 x, }
-    zchar[ 00 //x
-] repeatCount `a\` ,
     // c
     }
-")).
-Eval vm_compute in ("<<<M1222>>>" ++ check (runes_of_ascii "root packet metadata {
-@calculatedFrom( ""abc""
-    ) // a // b
-repeat charz	metadata `two words` , zchar[0 ]
-    packetx`u8 x,`, i16
-    Pad @lengthOf(
-BodyLength
-    )
-`a\`,string int @lengthOf(  leftPad )`a\` , char[] leftPad @calculatedFrom(	""1"" ) //	t
-, @lengthOf(u128)repeat char[ 10] A `{ , }`
-    , leftPad i64_ , @tag(007
-    )
-x u128 ,
-// packet A { u8 x, }
-// @lengthOf(
-uint32	options1	`it's`// packet A { u8 x, }
-,
-// packet A { u8 x, }
-//x
-}")).
-Eval vm_compute in ("<<<M1035>>>" ++ check (runes_of_ascii "// @lengthOf(
-MetaData	msg_type
-{} MetaData Logon { i64 uint8x ,
-o u128  ,}packet
-    body {
-@calculatedFrom( ""a	b"" ) uint8x`` ,} root
-packet  roots{ repeat len f32a `crlf
-line` , @rightPad( '\x00'
-) repeat i8i8
-    { zchar @lengthOf(
-    packetx ) `a\`,
-repeat
-msg_type , char[]
-    o `" ++ [233]%N ++ runes_of_ascii "`	, char[
-// " ++ [27880; 37322]%N ++ runes_of_ascii "
-//
-42
-]
-roots // @lengthOf(
-,
-//x
-// `tick` ""quote"" 'q'
-}  , } MetaData
-    pack
-//	t
-// trailing space 
-{
-repeatCount
-charz , }")).
-Eval vm_compute in ("<<<M284>>>" ++ check (runes_of_ascii "MetaData
-Header { int64
-zchar
-`u8 x,` , Header u8x ,  zchar[ 65535]u ,	A options1
-`it's` , zchar[  007 ] MetaDataX , zchar[// `tick` ""quote"" 'q'
-0] As , }
-    MetaData Logon	{char[] rootA,
-} packet int
-{
-f32 falsey, } MetaData float { len
-leftPad ,
-    A
-    Foo
-`tab	here`
-    , char[ 65535
-] T
-`line1
-line2` ,	} options // " ++ [128512]%N ++ runes_of_ascii " emoji
-{
-// " ++ [128512]%N ++ runes_of_ascii " emoji
-// " ++ [27880; 37322]%N ++ runes_of_ascii "
-float
-    ='0'
-//x
-// a // b
-;float
-= true
-    ;	Foo = ""\n""}")).
-Eval vm_compute in ("<<<M4587>>>" ++ check (runes_of_ascii "MetaData roots {
-}
-
-MetaData x_y_z {
-    zchar[42] i8i8,
-    options1 _x `doc`,
-    i8 zchar,
-    uint16 Pad `u8 x,`,
-}
-
-packet MetaDataX {
-    zchar[4294967296] rootA,
-}
-
-packet T {
-    @lengthOf(len)
-    @tag(42)
-    int64 float `{ , }`,
-    @lengthOf(i64_)
-    As @lengthOf(falsey),
-    int64 Pad @lengthOf(_x) `it's`,
-    @lengthOf(len)
-    char[255] Pad `" ++ [28040; 24687; 31867; 22411]%N ++ runes_of_ascii "`,
-}
-
-MetaData Foo {
-    char[1] As,
-}")).
-Eval vm_compute in ("<<<M3205>>>" ++ check (runes_of_ascii "// top
-options // c0
-{ // c1
-charz // c2
-= // c3
-f64 // c4
-; // c5
-metadata // c6
-= // c7
-7 // c8
-; // c9
-} // c10
-options // c11
-{ // c12
-u128 // c13
-= // c14
-10 // c15
-options1 // c16
-= // c17
-true // c18
-; // c19
-zchar // c20
-= // c21
-uint16 // c22
-; // c23
-lengthOf // c24
-= // c25
-true // c26
-; // c27
-} // c28
-options // c29
-{ // c30
-len // c31
-= // c32
-1 // c33
-} // c34
-")).
-Eval vm_compute in ("<<<M3729>>>" ++ check (runes_of_ascii "//	t
-packet Header {
-    @tag(0)
-    float64 u128,
-    @tag(65535)
-    pack `line1
-        line2`,
-    @tag(1)
-    trueish {
-        // " ++ [128512]%N ++ runes_of_ascii " emoji
-        // c
-        repeat u `it's`,
-    },
-    @lengthOf(repeatCount)
-    @calculatedFrom(""it's"")
-    @lengthOf(a1)
-    string_ @lengthOf(string_),
-}
-
-MetaData leftPad {
-    u8 pack,
-}
-
-packet msg_type {
-    Z9_,
-}")).
-Eval vm_compute in ("<<<M1182>>>" ++ check (runes_of_ascii "packet Packet{@tag(
-4294967296
-    )  charz	{ repeat
-char[
-    0123456789] BodyLength ,repeat trueish stringy , }, }options { body = char ; leftPad =uint16
-    //	t
-    ; stringy
-    = true ; packetx
-= true
-// `tick` ""quote"" 'q'
-//
-float=char[ 255 ]}
-// `tick` ""quote"" 'q'
-/// triple
-root packet	len {  @leftPad  ( '0') uint64
-    a1
-    ,} 	 ")).
-Eval vm_compute in ("<<<M1324>>>" ++ check (runes_of_ascii "
-root packet As {	u
-{ tag
-    a1
-, repeat charz `a\` , } ,match float
-    as
-u128 {""a\\"" : msg_type
-    ,""`tick`"": packetx, } , repeat
-char[
-    255 ] falsey `two words` ,
-f32
-    packetx  , zchar[0 //	t
-] options1 `{ , }`, repeat rootA
-    `
-` , }
-MetaData Header {
-u32 Header `` , }
-//x
-//x
-MetaData matchKey{ msg_type Z9_ ,
-}")).
-Eval vm_compute in ("<<<M1883>>>" ++ check (runes_of_ascii "MetaData
-    u { }  options @lengthOf(
-// c
-// @lengthOf(
-float = int8 ;rootA =false ; As =	int16 // `tick` ""quote"" 'q'
-repeatCount
-    // trailing space 
-    =
-    int16
-; u8x =
-    //	t
-    '\x00' ; } options	{
-    repeatCount
-= 0
-u128
-    //
-    = false ; i64_
-// trailing space 
-// `tick` ""quote"" 'q'
-= '0' ; //	t
-}
-")).
-Eval vm_compute in ("<<<M338>>>" ++ check (runes_of_ascii "root packet // `tick` ""quote"" 'q'
-roots{@rightPad (// trailing space 
-'0'
-)char[255 ] T`line1
-line2`
-,}packet msg_type {	Logon { f64 x_y_z`` ,
-    },	i8 pack @lengthOf( stringy )
-, @tag(
-    4294967296)char[] msg_type ,
-stringy // a // b
-{ match x as
-    roots { 1 :
-options1 ,
-    ""it's"" : BodyLength , }, } , }
-")).
-Eval vm_compute in ("<<<M1991>>>" ++ check (runes_of_ascii "MetaData
-    u { }  options {
-// c
-// @lengthOf(
-float = int8 ;rootA =false ; As =	int16 // `tick` ""quote"" 'q'
-repeatCount
-    // trailing space 
-    =
-    int16
-; u8x =
-    //	t
-    '\x00' ; } options	{ {
-    repeatCount
-= 0
-u128
-    //
-    = false ; i64_
-// trailing space 
-// `tick` ""quote"" 'q'
-= '0' ; //	t
-}
-")).
-Eval vm_compute in ("<<<M957>>>" ++ check (runes_of_ascii "packet body {
-@rightPad
-    ( ' ' )
-    msg_type{match u as zchar
-{
-""""// c
-:metadata
-, } ,As @calculatedFrom( ""CRC32""
-// " ++ [128512]%N ++ runes_of_ascii " emoji
-// " ++ [27880; 37322]%N ++ runes_of_ascii "
-) ,
-//x
-// @lengthOf(
-}
-, repeat u16 tag
-,
-    repeat MetaDataX ,
-} packet Foo {
-@rightPad() @leftPad( ' '  ) @calculatedFrom( ""\" ++ [233]%N ++ runes_of_ascii """
-    ) i8 i64_ ,
-    repeat uint16 float ,  }")).
-Eval vm_compute in ("<<<M1992>>>" ++ check (runes_of_ascii "MetaData
-    u { }  options {
-// c
-// @lengthOf(
-float = int8 ;rootA =false ; As =	int16 // `tick` ""quote"" 'q'
-repeatCount
-    // trailing space 
-    =
-    int16
-; u8x =
-    //	t
-    '\x00' ; } options	repeatCount
-    {
-= 0
-u128
-    //
-    = false ; i64_
-// trailing space 
-// `tick` ""quote"" 'q'
-= '0' ; //	t
-}
-")).
-Eval vm_compute in ("<<<M2000>>>" ++ check (runes_of_ascii "MetaData
-    u { }  options {
-// c
-// @lengthOf(
-float = int8 ;rootA =false ; As =	int16 // `tick` ""quote"" 'q'
-repeatCount
-    // trailing space 
-    =
-    int16
-; u8x =
-    //	t
-    '\x00' ; } options	{
-    repeatCount
- 0
-u128
-    //
-    = false ; i64_
-// trailing space 
-// `tick` ""quote"" 'q'
-= '0' ; //	t
-}
-")).
-Eval vm_compute in ("<<<M1943>>>" ++ check (runes_of_ascii "MetaData
-    u { }  options {
-// c
-// @lengthOf(
-float = int8 ;rootA =false ; As =	int16 // `tick` ""quote"" 'q'
-match
-    // trailing space 
-    =
-    int16
-; u8x =
-    //	t
-    '\x00' ; } options	{
-    repeatCount
-= 0
-u128
-    //
-    = false ; i64_
-// trailing space 
-// `tick` ""quote"" 'q'
-= '0' ; //	t
-}
-")).
-Eval vm_compute in ("<<<M501>>>" ++ check (runes_of_ascii "packet Foo{
-    char[ 10
-]f32a
-@lengthOf(
-calculatedFrom )
-    `crlf
-line`
-    , match pack as A// `tick` ""quote"" 'q'
-{ """ ++ [233]%N ++ runes_of_ascii "t" ++ [233]%N ++ runes_of_ascii """ :	f32a /// triple
-,[ ""x y"" , ""`tick`"" ] : falsey , ""x y""
-    //x
-    : Foo ,
-    7 : chars// c
-,""{,}""  :u128 , 255:
-A , } ,string
-//x
-// trailing space 
-T `
-` ,} /// triple")).
-Eval vm_compute in ("<<<M3917>>>" ++ check (runes_of_ascii "
-packet	As{	@calculatedFrom(""" ++ [28040; 24687]%N ++ runes_of_ascii """
-    )
-@rightPad
-( 
-' ' 
-)@leftPad (  )rootA
-
-    `crlf
-line` , }options 
-{
-len
-
-    =
-
-0
-; 
-Z9_ =
-    ""\n""  ;	repeatCount
-    = 
-//x
-
-  ""// no comment""
-; 	 /// triple
-    calculatedFrom	=
-	int64  chars =
-    ""\n""
-}
-    options{// trailing space 
-
-  }")).
-Eval vm_compute in ("<<<M219>>>" ++ check (runes_of_ascii "MetaData _x
-{As	f32a `doc` // " ++ [128512]%N ++ runes_of_ascii " emoji
-, }
-packet// @lengthOf(
-x {	zchar[  255
-    ]	calculatedFrom  ,string_@calculatedFrom( ""a	b"" ) , @calculatedFrom(""" ++ [128512]%N ++ runes_of_ascii """)@tag(
-4294967296 )@calculatedFrom(""a	b""
-) char[ 0 ]i64_
-`" ++ [28040; 24687; 31867; 22411]%N ++ runes_of_ascii "` ,
-    @leftPad(' '  ) repeat
-// c
-// c
-MetaDataX
-    ,}")).
-Eval vm_compute in ("<<<M932>>>" ++ check (runes_of_ascii "packet Packet { f32a// @lengthOf(
-pack ,  @tag(00
-)@tag( //	t
-7  ) // @lengthOf(
-A @calculatedFrom( ""\" ++ [233]%N ++ runes_of_ascii """
-// " ++ [27880; 37322]%N ++ runes_of_ascii "
-// " ++ [128512]%N ++ runes_of_ascii " emoji
-) ,crc	stringy
-    ,	}	packet Packet
-{ i64 u8x `u8 x,`
-    , // " ++ [27880; 37322]%N ++ runes_of_ascii "
-@leftPad ( '\x00' )
-@lengthOf( MetaDataX ) @lengthOf(As ) chars o `" ++ [28040; 24687; 31867; 22411]%N ++ runes_of_ascii "` , }")).
-Eval vm_compute in ("<<<M1593>>>" ++ check (runes_of_ascii "packet
-//	t
-// trailing space 
-_x {
-// packet A { u8 x, }
-// c
-char[
-3
-    ] u8x @lengthOf(
-u8x ) , @calculatedFrom(""" ++ [128512]%N ++ runes_of_ascii """ // @lengthOf(
-)
-i16	Foo
-@lengthOf(	string_
-    )`doc`	, repeat repeat	i64 metadata , @lengthOf( string_
-) i8 // c
-u  `line1
-line2`	,
-}
-")).
-Eval vm_compute in ("<<<M1513>>>" ++ check (runes_of_ascii "packet
-//	t
-// trailing space 
-_x {
-// packet A { u8 x, }
-// c
-char[
-3
-    ] ] u8x @lengthOf(
-u8x ) , @calculatedFrom(""" ++ [128512]%N ++ runes_of_ascii """ // @lengthOf(
-)
-i16	Foo
-@lengthOf(	string_
-    )`doc`	, repeat	i64 metadata , @lengthOf( string_
-) i8 // c
-u  `line1
-line2`	,
-}
-")).
-Eval vm_compute in ("<<<M1668>>>" ++ check (runes_of_ascii "packet
-//	t
-// trailing space 
-_x {
-// packet A { u8 x, }
-// c
-char[
-3
-    ] u8x @lengthOf" ++ [127]%N ++ runes_of_ascii "(
-u8x ) , @calculatedFrom(""" ++ [128512]%N ++ runes_of_ascii """ // @lengthOf(
-)
-i16	Foo
-@lengthOf(	string_
-    )`doc`	, repeat	i64 metadata , @lengthOf( string_
-) i8 // c
-u  `line1
-line2`	,
-}
-")).
-Eval vm_compute in ("<<<M1599>>>" ++ check (runes_of_ascii "packet
-//	t
-// trailing space 
-_x {
-// packet A { u8 x, }
-// c
-char[
-3
-    ] u8x @lengthOf(
-u8x ) , @calculatedFrom(""" ++ [128512]%N ++ runes_of_ascii """ // @lengthOf(
-)
-i16	Foo
-@lengthOf(	string_
-    )`doc`	, repeat	metadata i64 , @lengthOf( string_
-) i8 // c
-u  `line1
-line2`	,
-}
-")).
-Eval vm_compute in ("<<<M3793>>>" ++ check (runes_of_ascii "  packet
-_x	{
-
-    repeat  
-      // packet A { u8 x, }
-	  A  {
-
-int64
-    uint8x `tab	here`
-,  },}
-	packet Pad{ 
-@tag(65535
-
-    )
-    string	_x//x
-	@lengthOf(
-
-    asx
-
-),@rightPad (
-    '0') 
-u8 MetaDataX
+, } , int8 matchKey
     ,
-    u64 
-chars  , 
-// c
-}
-")).
-Eval vm_compute in ("<<<M1646>>>" ++ check (runes_of_ascii "packet
-//	t
-// trailing space 
-_x {
+metadata @lengthOf( roots )
 // packet A { u8 x, }
-// c
-char[
-3
-    ] u8x @lengthOf(
-u8x ) , @calculatedFrom(""" ++ [128512]%N ++ runes_of_ascii """ // @lengthOf(
+//	t
+,  string u// " ++ [27880; 37322]%N ++ runes_of_ascii "
+@lengthOf(
+    As
 )
-i16	Foo
-@lengthOf(	string_
-    )`doc`	, repeat	i64 metadata , @lengthOf( string_
-) i8 // c
-u  `line1
-line2`")).
-Eval vm_compute in ("<<<M3910>>>" ++ check (runes_of_ascii "// top
-packet A {
-    // c2a
-    // c2b
-    u8 a,
+    , } packet //x
+x_y_z {
+    // " ++ [128512]%N ++ runes_of_ascii " emoji
+    len o, match
+string_ as
+Foo {
+[
+    255
+    ,
+""" ++ [233]%N ++ runes_of_ascii "t" ++ [233]%N ++ runes_of_ascii """
+    //
+    , 255 , 007 , ""a\""b""
+    // " ++ [27880; 37322]%N ++ runes_of_ascii "
+    , ""abc""  ]
+: a1
+    // @lengthOf(
+    ,""CRC32""
+:matchKey } ,@lengthOf(
+int )	@calculatedFrom(//	t
+""1""// " ++ [27880; 37322]%N ++ runes_of_ascii "
+)
+@calculatedFrom(//
+""it's"") char[ 0 ]
+matchKey @calculatedFrom(
+""`tick`"" )
+    , match a1
+as Z9_
+{ [ ""CRC32"" , 65535 ] :
+    x [ 0123456789 ,  """ ++ [233]%N ++ runes_of_ascii "t" ++ [233]%N ++ runes_of_ascii """]	: packetx ,
+    ""packet"" :
+//	t
+// a // b
+msg_type , 10 : // " ++ [27880; 37322]%N ++ runes_of_ascii "
+o// " ++ [128512]%N ++ runes_of_ascii " emoji
+, }, @lengthOf( repeatCount )
+    f32 As , @tag( 3
+    )
+    string_, } 	 ")).
+Eval vm_compute in ("<<<M4422>>>" ++ check (runes_of_ascii "MetaData falsey {
+    char[] f32a `" ++ [28040; 24687; 31867; 22411]%N ++ runes_of_ascii "`,
+    u8x len `" ++ [233]%N ++ runes_of_ascii "`,
+    char[] uint8x,
+    f32 trueish,
+    char[10] len `two words`,
+    rootA int,
 }
 
-packet B {
-    // c9
-    u16 b,// c12a
-}// c13
+root packet A {
+    Z9_,
+    repeat MetaDataX `it's`,
+    @tag(007)
+    repeat options1 A,
+    repeat x `line1
+    line2`,
+    MetaDataX @lengthOf(options1) `say ""hi""`,
+}
 
-root packet P {
-    u8 K,// c20a
-    // c20b
-    match K as M {
-        // c25
-        1 : A,
-        1 : B,
-        // c33
-    },
-}// c36")).
-Eval vm_compute in ("<<<M716>>>" ++ check (runes_of_ascii "MetaData  u8x{ msg_type T
-    `it's` ,
-// `tick` ""quote"" 'q'
 // trailing space 
-zchar[
-    4294967296
-]	len/// triple
-, u32 chars `a\` , metadata calculatedFrom
-`{ , }`
-,
-    } packet Z9_ {	}  root packet
-Logon {}
-/// triple
-")).
-Eval vm_compute in ("<<<M3617>>>" ++ check (runes_of_ascii "options {
+// " ++ [27880; 37322]%N ++ runes_of_ascii "
+root packet rootA {
+    @tag(255)
+    char[10] Foo @lengthOf(metadata) ``,
+    @leftPad('\x00')
+    msg_type {
+        //x
+        // a // b
+        float32 Pad,
+        repeat uint32 Logon,
+    },
+    @leftPad()
+    stringy @calculatedFrom(""" ++ [128512]%N ++ runes_of_ascii """) `" ++ [28040; 24687; 31867; 22411]%N ++ runes_of_ascii "`,
+    @tag(4294967296)
+    @tag(4294967296)
+    @lengthOf(i8i8)
+    BodyLength {
+        zchar[42] u128,
+        crc {
+            char[255] Z9_ @lengthOf(int),
+        },
+    },
+    @tag(10)
+    zchar[3] stringy @calculatedFrom(""\n""),
+    a1 calculatedFrom,
+}
+
+packet u8x {
+    x_y_z @lengthOf(lengthOf) `crlf
+    line`,
+    match uint8x as repeatCount {
+        [""a\""b"", ""// no comment""] : Header,
+        [""a\\"", 4294967296] : roots,
+        // " ++ [128512]%N ++ runes_of_ascii " emoji
+        // @lengthOf(
+        42 : rootA,
+        [1, """", ""`tick`"", ""a	b""] : tag,
+        ""1"" : u8x,
+    },
+    f32a `a\`,
+    @lengthOf(u8x)
+    pack asx,
+    uint64 leftPad,
+    repeat char[0] Pad,
+}")).
+Eval vm_compute in ("<<<M3622>>>" ++ check (runes_of_ascii "options {
     StringPrefixLenType = u16;
+    ArrayPrefixLenType = u8;
+    FixedStringPadFromLeft = true;
     FixedStringPadChar = ' ';
 }
-packet Party {
-}
 packet Quote {
-    repeat Party,
-    repeat char[2] f1,
+    int64 OrderId,
+    char[] Ref,
+    @leftPad('0') char[5] price,
 }
-packet Logon {
+packet Heartbeat {
+    zchar[3] venue,
+    string Flags,
 }
-root packet Cancel {
-    uint16 x,
-    zchar[6] f1,
+packet Trade {
+    repeat InTag787 {
+        i32 venue,
+        char[5] sym,
+        repeat InPx98 {
+            char[11] Qty,
+            Heartbeat,
+            char[] price,
+            u32 x,
+            float64 count,
+            repeat Quote,
+        },
+        zchar[7] Note,
+        repeat char[1] Tail,
+    },
+    repeat char[2] seqNo,
+    InTail55 {
+        repeat Quote,
+        string msgKind,
+        InPx18 {
+            char[] count,
+            repeat Quote,
+            uint16 Qty,
+        },
+        char[4] seqNo,
+        repeat Heartbeat,
+        repeat string sym,
+    },
+    repeat Quote,
+    Heartbeat,
+    @leftPad(' ') char[10] OrderId,
+}
+root packet Fill {
+    Heartbeat,
+    uint32 count,
+    u8 OrderId,
+    match OrderId as Body {
+        96 : Quote,
+        195 : Trade,
+        187 : Heartbeat,
+    },
+    u32 venue @calculatedFrom(""CR\
+C32""),
 }
 ")).
-Eval vm_compute in ("<<<M1673>>>" ++ check (runes_of_ascii "options options { trueish = ""`tick`"" ; string_= """ ++ [233]%N ++ runes_of_ascii "t" ++ [233]%N ++ runes_of_ascii """
+Eval vm_compute in ("<<<M3621>>>" ++ check (runes_of_ascii "
+
+  options{
+
+    StringPrefixLenType
+
+=
+u16	;	ArrayPrefixLenType  =u8
+
+    ;
+
+FixedStringPadFromLeft=
+    true ;
+    FixedStringPadChar
+=' '	; }
+packet Quote
+    {int64 
+OrderId
+    ,
+char[] Ref,@leftPad
+(
+'0'
+)char[
+    5 
+]	price
+	, 
+}packet
+    Heartbeat
+
+    {	zchar[  3 
+] 
+venue,
+
+    string Flags	, 
+}packet Trade
+
+{
+
+    repeat  InTag787
+
+{
+	i32 venue
+    , char[
+
+    5 ] 
+sym
+
+,
+repeat
+    InPx98
+
+{char[ 11  ]  Qty
+    , Heartbeat 
+, char[] price
+    ,  u32
+
+    x ,
+
+float64	count
+,repeat 
+Quote
+
+,
+}
+    , zchar[  7 ]  Note
+, repeat char[
+1
+
+    ]
+Tail ,  }
+, repeat
+	char[
+
+    2 ]	seqNo,	InTail55 
+{repeat	Quote ,string
+msgKind ,
+InPx18{
+
+    char[]count ,  repeat	Quote
+
+    , uint16 Qty
+
+,
+	},
+char[
+4 ]
+
+    seqNo	, 
+repeat 
+Heartbeat
+
+,repeat	string
+
+    sym
+,
+} ,repeat
+Quote,
+Heartbeat , @leftPad(' '
+
+)
+    char[
+
+    10 
+] OrderId,
+} 
+root
+packet
+    Fill
+    {	Heartbeat,  uint32 count
+
+,
+	u8
+
+OrderId
+
+,
+match  OrderId
+as 
+Body
+	{
+
+96 
+: Quote
+, 195	: 
+Trade , 187 :Heartbeat,
+} 
+,  u32
+	venue 
+@calculatedFrom(
+""CRC32""
+	)
+	,	}
+")).
+Eval vm_compute in ("<<<M4037>>>" ++ check (runes_of_ascii "options {
+    LittleEndian = true;
+    StringPrefixLenType = u16;
+    ArrayPrefixLenType = u8;
+    FixedStringPadChar = '0';
+}
+
+packet Logout {
+    repeat i16 f1,
+    string Ref,
+    @rightPad('\x00')
+    char[9] Tail,
+    repeat char[6] Flags,
+    repeat char[3] Acct,
+}
+
+packet Party {
+    char[2] f1,
+    u8 Side2,
+    @leftPad(' ')
+    char[1] venue,
+}
+
+packet Order {
+    repeat i64 Ref,
+    InPx62 {
+        i32 OrderId,
+    },
+    InNote53 {
+        InClordid80 {
+            char[] Acct,
+            u32 Px,
+            repeat Party,
+        },
+        InPrice12 {
+            u8 pad0,
+        },
+        repeat Logout,
+        InFlags23 {
+            repeat string seqNo,
+            string sym,
+            int8 Flags,
+            zchar[5] lastPx,
+            zchar[6] Px,
+        },
+        char[10] Acct,
+        InPx18 {
+            zchar[2] count,
+            Party,
+        },
+    },
+    char[5] Side2,
+    char[1] Acct,
+}
+
+root packet Ack {
+    u32 Tail,
+    repeat char[4] msgKind,
+    repeat Logout,
+}")).
+Eval vm_compute in ("<<<M1317>>>" ++ check (runes_of_ascii "MetaData  u{ metadata x_y_z	, i8i8
+    len`it's`
+    , zchar[ // " ++ [27880; 37322]%N ++ runes_of_ascii "
+42	]
+options1 `{ , }` ,
+} packet u {
+@calculatedFrom(""abc""// a // b
+)
+// c
+// " ++ [27880; 37322]%N ++ runes_of_ascii "
+char[ 0123456789 ] string_ @lengthOf(
+Logon) `a\`	, string string_
+@lengthOf( // packet A { u8 x, }
+float )	, char[]// c
+crc
+`line1
+line2` , @lengthOf(
+/// triple
+// `tick` ""quote"" 'q'
+metadata
+    )  u128 {
+    char[]  T ,}, f64  As
+@calculatedFrom(// a // b
+""// no comment""
+)// " ++ [27880; 37322]%N ++ runes_of_ascii "
+,  repeat Z9_
+    chars`u8 x,` ,  @calculatedFrom(
+""packet"" )repeat
+    // @lengthOf(
+    a1  tag , } packet A
+    {	@tag(7
+    )@rightPad
+(
+) @tag( 0123456789 ) repeat
+    crc { repeatCount As
+// @lengthOf(
+//	t
+,}
+, match pack
+    as u {
+""packet"" :Pad  , ""1"":u8x 007
+    : Packet [ ""packet"", """ ++ [28040; 24687]%N ++ runes_of_ascii """ ] // " ++ [27880; 37322]%N ++ runes_of_ascii "
+: BodyLength
+""1"" :asx ,
+} , match i64_
+as Header{ 4294967296: _x	007 :packetx
+, [007 ]
+:
+A
+    , //	t
+} ,uint8 BodyLength ,@lengthOf(
+// `tick` ""quote"" 'q'
+// packet A { u8 x, }
+i64_ //	t
+)
+    u8
+falsey //	t
+, }
+")).
+Eval vm_compute in ("<<<M208>>>" ++ check (runes_of_ascii "packet zchar{
+    uint8x { MetaDataX , match stringy as calculatedFrom { """" : options1,""// no comment""
+: //x
+u
+""\" ++ [233]%N ++ runes_of_ascii """
+:  body
+, [
+""abc""
+    , ""it's"" , // c
+007 ] : packetx
+//	t
+// @lengthOf(
+,65535:
+roots
+, } ,  zchar[	10 ]
+lengthOf`two words`  ,	} // trailing space 
+,
+//
+// packet A { u8 x, }
+} root
+packet Header{repeat f32a o `two words`,
+    @lengthOf(
+    f32a ) char[	42
+]
+    uint8x ,	@tag( 42
+)
+    float@lengthOf(
+MetaDataX  ) , string T	, match _x as leftPad
+    { 0123456789 :
+    stringy, } ,  @leftPad // @lengthOf(
+( )repeat uint8x// c
+{
+string_ { char[ 255] a1 @calculatedFrom( ""abc""
+), metadata @lengthOf(	asx ),
+    } , repeat falsey /// triple
+,
+    Logon { As ,
+repeat char[]// trailing space 
+u
+    , } , },
+    @leftPad
+    (	' '
+    )
+char[ 10
+] charz
+@lengthOf(  float ), @calculatedFrom(
+    """ ++ [233]%N ++ runes_of_ascii "t" ++ [233]%N ++ runes_of_ascii """
+) i64 trueish
+    `two words`
+, } options{ options1	=7
+; u
+    // " ++ [27880; 37322]%N ++ runes_of_ascii "
+    = """" ; } 	 ")).
+Eval vm_compute in ("<<<M3908>>>" ++ check (runes_of_ascii "
+
+  options  { metadata
+    = ""a\""b""
+	;int
+	= true; 
+chars
+    = '\x00';
+	string_ = '\x00'
+
+; } packet
+
+    x {	match As	as
+	tag  {	1 :zchar
+
+,	""a	b""  // packet A { u8 x, }
+  :
+
+    len,
+}
+,  Pad
+i64_,  // " ++ [27880; 37322]%N ++ runes_of_ascii "
+@tag(
+3
+) 
+leftPad
+{ 	 // trailing space 
+  body ,}
+    ,char[]
+	i8i8  `{ , }`  ,
+charz	{  repeat
+
+u16
+	zchar
+
+    `two words`
+,
+
+    }
+	//
+  //	t
+    , int64
+	Z9_  // " ++ [27880; 37322]%N ++ runes_of_ascii "
+	@calculatedFrom(
+""a\\""
+),@rightPad (
+
+'\x00'  )
+	metadata  @lengthOf(	i64_ 	 // `tick` ""quote"" 'q'
+    ) , @lengthOf(// @lengthOf(
+      int
+)
+u32  u128 
+,	// packet A { u8 x, }
+	  @tag(10
+
+    )
+
+    // " ++ [27880; 37322]%N ++ runes_of_ascii "
+	// " ++ [128512]%N ++ runes_of_ascii " emoji
+		@rightPad( 
+'\x00')	//
+  @tag(	007
+	)float
+    {	int32 Pad	`" ++ [233]%N ++ runes_of_ascii "`
+	, i16 options1``
+    ,
+	repeatCount  // @lengthOf(
+	,
+    chars	@lengthOf(
+
+pack
+	),
+	}
+	,repeat
+    int
+    {  zchar[ 10 ]	u
+`two words`
+    , i64
+Logon
+    ,
+    }  ,}
+")).
+Eval vm_compute in ("<<<M3859>>>" ++ check (runes_of_ascii "// c
+packet i8i8 {
+}
+
+packet string_ {
+    @rightPad('\x00')
+    int Packet,// a // b
+    @tag(255)
+    matchKey,
+    chars @calculatedFrom(""packet"") `
+        `,
+    _x @lengthOf(u),
+    @tag(255)
+    asx Foo,
+    string roots,
+    repeat falsey {
+        matchKey {
+            match Pad as i8i8 {
+                [00, 7] : u,
+                1 : BodyLength,
+                // a // b
+                ""// no comment"" : metadata,
+                """" : BodyLength,
+            },
+        },
+        A,
+        repeat char falsey,
+    },// packet A { u8 x, }
+    _x u `it's`,
+    @leftPad('\x00')
+    @calculatedFrom(""\n"")
+    match x_y_z as metadata {
+        ""CRC32"" : packetx,
+        ""packet"" : metadata,
+        1 : string_,
+        [0, 10] : falsey,
+    },
+    char[] chars @lengthOf(zchar) `say ""hi""`,
+}")).
+Eval vm_compute in ("<<<M587>>>" ++ check (runes_of_ascii "
+packet _x{ metadata
+    @lengthOf( i64_ ) , match trueish as
+int {
+    ["""" ,  255
+    ] :
+//
+// packet A { u8 x, }
+T , 65535:zchar ,// c
+} , @calculatedFrom(
+    ""a\""b"")	match leftPad as// a // b
+len{ ""x y""
+: Z9_ ,[ 0 ,
+007 , ""x y"" ] :
+    falsey
+    //	t
+    , } , }
+    root packet
+As{
+string int , @tag(
+    255 )@lengthOf( roots )
+@calculatedFrom( """ ++ [128512]%N ++ runes_of_ascii """
+    // @lengthOf(
+    ) repeat crc
+{ repeat char trueish , // " ++ [128512]%N ++ runes_of_ascii " emoji
+}
+,
+    zchar[4294967296 ] options1@calculatedFrom( ""CRC32"" )
+,match packetx as
+lengthOf
+{ ""a\""b"" :
+options1 ,
+0123456789  : Foo, ""a\\"" : trueish
+,3  : string_,""\n"" : zchar
+, [	65535 ] : u128
+    } ,  @tag( 42) @leftPad
+    //x
+    (
+// `tick` ""quote"" 'q'
+// `tick` ""quote"" 'q'
+'\x00' ) i16
+crc , }packet lengthOf // trailing space 
+{ }")).
+Eval vm_compute in ("<<<M264>>>" ++ check (runes_of_ascii "
+root packet u128 { @calculatedFrom( ""// no comment"" ) @tag(	10//	t
+) @calculatedFrom( ""packet"" ) BodyLength ``
+    , char BodyLength `two words`	, repeat uint32 f32a // trailing space 
+, crc {	repeat
+repeatCount Packet , MetaDataX@lengthOf(
+    chars
+),
+options1 _x ,
+repeat float64 T//x
+,} ,@tag( 3 )
+    @leftPad
+( '\x00') @rightPad
+(
+// @lengthOf(
+/// triple
+)
+    match string_ as MetaDataX { ""packet"" : float ,[
+    ""abc"" // @lengthOf(
+, """"
+    // packet A { u8 x, }
+    ,	3
+,
+    //x
+    65535 ,
+    ""a	b""
+,//	t
+42
+    ,
+    1 ,
+    ""packet"" ]:
+i64_
+// `tick` ""quote"" 'q'
+/// triple
+,
+// " ++ [27880; 37322]%N ++ runes_of_ascii "
+// trailing space 
+7 :lengthOf 0:
+len
+// trailing space 
+// packet A { u8 x, }
+,
+10 :  len , [ //	t
+0
+] : A
+    //	t
+    , }, }")).
+Eval vm_compute in ("<<<M933>>>" ++ check (runes_of_ascii "packet //x
+Foo
+    {char _x ,
+@calculatedFrom(
     // c
-    } root
+    ""`tick`"")uint8x , @calculatedFrom(""it's"" ) repeat metadata {int64 Pad  , // " ++ [128512]%N ++ runes_of_ascii " emoji
+float , pack
+    // c
+    matchKey`" ++ [28040; 24687; 31867; 22411]%N ++ runes_of_ascii "`
+, }, string lengthOf
+//
+/// triple
+,
+zchar[ 7 ]	chars ,i16 asx @calculatedFrom(
+""{,}"" )`u8 x,` , @calculatedFrom(""a\\"" ) u32 o `tab	here`
+//
+// a // b
+,match u8x as
+    chars {[ ""// no comment"",""`tick`"", ""x y""
+    ,0
+,""\" ++ [233]%N ++ runes_of_ascii """, //	t
+00 ,""" ++ [233]%N ++ runes_of_ascii "t" ++ [233]%N ++ runes_of_ascii """ ]	:
+lengthOf ,
+},  } options
+{ crc// `tick` ""quote"" 'q'
+=u64 }packet metadata { @rightPad () float len ,} options {  f32a =false
+//	t
+//
+;
+    calculatedFrom =  10;//	t
+pack =
+    char[  42
+    ] trueish = ' '
+}
+    root  packet leftPad	{ i32
+x
+    `{ , }` ,
+}
+")).
+Eval vm_compute in ("<<<M4180>>>" ++ check (runes_of_ascii "packet  metadata {  //	t
+	leftPad{u64 
+stringy , 
+},} packet
+matchKey
+	{
+	repeat
+
+u64
+	x_y_z,
+
+}  MetaData
+
+    f32a
+
+    {	}
+	root packet 
+As	{  @lengthOf( Logon
+)	float64 A
+
+, @leftPad ( 	 // " ++ [27880; 37322]%N ++ runes_of_ascii "
+'0'
+)  u32
+
+i64_ /// triple
+`// not a comment`  /// triple
+    ,repeat	i8
+
+    chars	,
+	@lengthOf( x_y_z	)Foo
+x
+    ,	stringy,
+chars @calculatedFrom( ""CRC32"" 
+), @tag(
+    0	) 
+int64 pack `
+`	, @rightPad
+() @calculatedFrom(
+	""abc""
+	)@tag(	// packet A { u8 x, }
+0  )
+char[ 0
+
+] msg_type 	 // a // b
+      , 	 // " ++ [27880; 37322]%N ++ runes_of_ascii "
+    tag {
+	char[ 
+007 ]zchar
+	@lengthOf(  chars ) ,
+As @lengthOf(charz  )
+`doc`
+
+,  body
+
+`u8 x,`  ,
+	}
+,Foo  `two words`
+    ,	} ")).
+Eval vm_compute in ("<<<M106>>>" ++ check (runes_of_ascii "packet  matchKey
+{
+    } options{ int = ""a\\""
+; lengthOf //	t
+= ""it's"" } MetaData lengthOf { Pad  tag
+    , } root packet
+    x {int @lengthOf(	pack )
+`a\` //
+, string matchKey
+@lengthOf( chars
+    )  `" ++ [233]%N ++ runes_of_ascii "` , repeat repeatCount
+//x
+//
+{
+    // packet A { u8 x, }
+    match x_y_z as A
+    {""1"": o	,
+// packet A { u8 x, }
+// `tick` ""quote"" 'q'
+7 :uint8x
+// `tick` ""quote"" 'q'
+//	t
+, [
+// `tick` ""quote"" 'q'
+// " ++ [128512]%N ++ runes_of_ascii " emoji
+65535 , """"
+] ://
+Header """ ++ [233]%N ++ runes_of_ascii "t" ++ [233]%N ++ runes_of_ascii """ :  u8x
+    """ ++ [28040; 24687]%N ++ runes_of_ascii """ : charz 65535 :
+stringy }// " ++ [128512]%N ++ runes_of_ascii " emoji
+,	zchar[007]	uint8x ,f32 repeatCount @lengthOf( // c
+float) `two words` , f64 A  `u8 x,`	,
+}, }
+    packet Header{ }
+")).
+Eval vm_compute in ("<<<M1341>>>" ++ check (runes_of_ascii "// packet A { u8 x, }
+packet zchar { uint32 // packet A { u8 x, }
+matchKey , i32 leftPad @calculatedFrom(
+    //	t
+    ""1"" ) `crlf
+line` ,
+_x{  f32a @calculatedFrom(""`tick`""// " ++ [128512]%N ++ runes_of_ascii " emoji
+) ,// packet A { u8 x, }
+char metadata `u8 x,` ,
+    // c
+    char[]
+a1 @lengthOf(float )  `a\`
+, } ,
+@lengthOf(
+A	)/// triple
+zchar[ //
+0123456789
+]Header @lengthOf( o) `" ++ [28040; 24687; 31867; 22411]%N ++ runes_of_ascii "`// c
+,	@tag(00) x `it's` ,
+i8 msg_type @lengthOf(
+len) `
+` , @tag(
+    00
+    ) repeat matchKey// a // b
+{
+    string// " ++ [128512]%N ++ runes_of_ascii " emoji
+u `" ++ [28040; 24687; 31867; 22411]%N ++ runes_of_ascii "` ,u8 u @calculatedFrom( ""a\""b"" ) ,
+i8 len, packetx, }	,
+    } options
+    { Foo = 0
+;
+    }
+")).
+Eval vm_compute in ("<<<M3705>>>" ++ check (runes_of_ascii "packet MetaDataX {
+    matchKey,
+}
+
+packet x {
+    i32 msg_type,
+    leftPad {
+        string Logon @lengthOf(body),
+    },/// triple
+    repeat options1 {
+        i8i8 msg_type `a\`,
+    },
+    @tag(0)
+    @leftPad()
+    // `tick` ""quote"" 'q'
+    int64 f32a @lengthOf(asx) `tab	here`,
+    char[] pack `" ++ [28040; 24687; 31867; 22411]%N ++ runes_of_ascii "`,//x
+    @lengthOf(stringy)
+    repeat leftPad,
+    @leftPad(' ')
+    @leftPad()
+    match Logon as roots {
+        //x
+        ""`tick`"" : string_,
+    },
+    @tag(0123456789)
+    @calculatedFrom(""1"")
+    @leftPad()
+    u32 x_y_z @calculatedFrom(""\" ++ [233]%N ++ runes_of_ascii """),
+}")).
+Eval vm_compute in ("<<<M313>>>" ++ check (runes_of_ascii "root
+packet i8i8
+{ BodyLength `" ++ [28040; 24687; 31867; 22411]%N ++ runes_of_ascii "`, Header , int16 len @lengthOf( msg_type ) `
+` ,@leftPad/// triple
+(' '/// triple
+) @rightPad// " ++ [27880; 37322]%N ++ runes_of_ascii "
+( // a // b
+) // trailing space 
+@calculatedFrom(
+""x y"" ) repeatCount // @lengthOf(
+@calculatedFrom( /// triple
+""packet"")
+    `crlf
+line` , @lengthOf(falsey
+)  roots @lengthOf( metadata
+    )`line1
+line2` ,
+    i8 i64_
+, @tag( 4294967296)@tag( 3 ) repeat	zchar[
+1 ] lengthOf, @lengthOf(	Logon
+// `tick` ""quote"" 'q'
+// `tick` ""quote"" 'q'
+)repeat
+asx{stringy float`line1
+line2` , Pad ,
+}
+    , }
+")).
+Eval vm_compute in ("<<<M3666>>>" ++ check (runes_of_ascii "// top
+packet // c0
+Sub // c1a
+  // c1b
+{ u8 // c3a
+  // c3b
+a
+    // c4
+, // c5a
+  // c5b
+@calculatedFrom( // c6
+""CRC16"" // c7a
+  // c7b
+)
+    // c8
+u16 SubSum // c10
+, } // c12
+root packet Frame { // c16
+u16 // c17
+MsgType // c18
+, u16 // c20a
+  // c20b
+BodyLen // c21
+@lengthOf( Body ) ,
+    // c25
+Sub // c26
+Body , string // c29a
+  // c29b
+note
+    // c30
+,
+    // c31
+@calculatedFrom( // c32a
+  // c32b
+""CRC16"" // c33
+) // c34
+u16 Checksum // c36a
+  // c36b
+, u8
+    // c38
+tail // c39
+, // c40
+}
+    // c41
+")).
+Eval vm_compute in ("<<<M722>>>" ++ check (runes_of_ascii "
+options{
+} MetaData
+    trueish{  }
+MetaData
+options1
+    {
+    // @lengthOf(
+    Z9_ Logon `doc` ,
+    }
+packet i64_ /// triple
+{
+    falsey
+// " ++ [27880; 37322]%N ++ runes_of_ascii "
+/// triple
+rootA
+    ,	@calculatedFrom( ""// no comment"")
+string x_y_z
+,	rootA`{ , }` ,	u `tab	here` // " ++ [128512]%N ++ runes_of_ascii " emoji
+, i64_ Packet, _x
+asx	,@tag( 255 )uint64 trueish , @tag(
+    4294967296 ) @rightPad ( ' '  ) @calculatedFrom( """ ++ [28040; 24687]%N ++ runes_of_ascii """) i64 //
+MetaDataX, @leftPad (' ' // packet A { u8 x, }
+) Pad `a\` , } packet
+asx
+    {// packet A { u8 x, }
+}")).
+Eval vm_compute in ("<<<M337>>>" ++ check (runes_of_ascii "options { }packet BodyLength {i8i8 @lengthOf(trueish ) , repeat body ,// " ++ [27880; 37322]%N ++ runes_of_ascii "
+@calculatedFrom( ""1"" )repeat int64 i64_ ,@tag(0 )
+    MetaDataX msg_type `" ++ [28040; 24687; 31867; 22411]%N ++ runes_of_ascii "`  , Pad { Header @calculatedFrom( """"), }, @tag(  42
+    ) u8 asx `u8 x,` , @tag( 3
+) repeat string_ {
+metadata
+{// @lengthOf(
+char[ 0123456789  ] crc, Packet
+    `" ++ [28040; 24687; 31867; 22411]%N ++ runes_of_ascii "` , //x
+options1
+    // " ++ [128512]%N ++ runes_of_ascii " emoji
+    `tab	here` // packet A { u8 x, }
+,
+}, repeat Packet , } , }
+    //x
+    options { x
+    =  char[ 10	] ; }")).
+Eval vm_compute in ("<<<M520>>>" ++ check (runes_of_ascii "
+packet o {repeat	MetaDataX ,uint64 f32a /// triple
+`" ++ [233]%N ++ runes_of_ascii "`
+,f32 packetx `doc`	, leftPad { repeat len x ,
+    zchar[ 0123456789
+    // packet A { u8 x, }
+    ] tag @lengthOf(MetaDataX )
+    , chars{ zchar[
+// " ++ [27880; 37322]%N ++ runes_of_ascii "
+// `tick` ""quote"" 'q'
+65535]
+u8x `" ++ [28040; 24687; 31867; 22411]%N ++ runes_of_ascii "`, u16 BodyLength
+@calculatedFrom( ""`tick`""
+) `line1
+line2`
+, char[]
+stringy , repeat i64_ charz `crlf
+line` , // trailing space 
+}
+    // packet A { u8 x, }
+    ,	f32
+msg_type , } ,x`` ,
+    }
+")).
+Eval vm_compute in ("<<<M1253>>>" ++ check (runes_of_ascii "root packet metadata{ @calculatedFrom( ""it's"")match
+    Foo as a1{ ""{,}"" :
+    len,
+0123456789 :
+pack ,
+    4294967296
+:len ,
+0123456789 :matchKey
+, [ ""it's"" ]	:o//	t
+}, //
+@calculatedFrom(""""
+//	t
+// " ++ [128512]%N ++ runes_of_ascii " emoji
+) body {	repeat// trailing space 
+float64  zchar `it's` , repeat float zchar// " ++ [27880; 37322]%N ++ runes_of_ascii "
+`// not a comment` , } , } MetaData _x {
+    crc A // a // b
+, char[]repeatCount `two words`,
+uint8x u128 , o rootA `two words`
+    , }")).
+Eval vm_compute in ("<<<M353>>>" ++ check (runes_of_ascii "options { len=
+    // c
+    ""abc""
+; lengthOf = // trailing space 
+true ;} packet
+float {
+    @tag( 65535
+// `tick` ""quote"" 'q'
+// trailing space 
+) @rightPad
+(' ' )int32
+zchar ,repeat int64 trueish
+,
+@tag(10// packet A { u8 x, }
+)
+T repeatCount ,@leftPad (' ' )float32 MetaDataX
+    `it's`
+    ,
+@rightPad (	' ' ) repeat zchar[ 0123456789 ] A
+    , repeat
+i8 f32a , u8 body
+@calculatedFrom( ""it's""
+)
+,
+    }
+")).
+Eval vm_compute in ("<<<M452>>>" ++ check (runes_of_ascii "root packet
+    MetaDataX {} options {  int// " ++ [128512]%N ++ runes_of_ascii " emoji
+=	false
+    //	t
+    } packet
+    falsey {
+    string tag  `say ""hi""` , leftPad // trailing space 
+stringy
+, @calculatedFrom( ""a	b"" ) As
+@calculatedFrom(""packet""	)
+// `tick` ""quote"" 'q'
+// c
+`line1
+line2`
+,
+A@lengthOf(
+// " ++ [27880; 37322]%N ++ runes_of_ascii "
+//
+body) , @calculatedFrom( """ ++ [28040; 24687]%N ++ runes_of_ascii """ ) calculatedFrom ,
+calculatedFrom @lengthOf( calculatedFrom
+)
+`tab	here`,
+}
+")).
+Eval vm_compute in ("<<<M484>>>" ++ check (runes_of_ascii "packet packetx { // packet A { u8 x, }
+@rightPad
+(' ') match x_y_z as options1 {[42
+    ] : f32a , ""`tick`"" :
+    trueish , [ 65535 ,""" ++ [233]%N ++ runes_of_ascii "t" ++ [233]%N ++ runes_of_ascii """
+] :crc, """ ++ [128512]%N ++ runes_of_ascii """ :
+lengthOf ""a	b""  :  Header , 255 : x_y_z
+// @lengthOf(
+// @lengthOf(
+,
+    }
+    ,	} packet zchar
+    // trailing space 
+    { Header
+    // " ++ [128512]%N ++ runes_of_ascii " emoji
+    @calculatedFrom(
+    ""CRC32"") , @leftPad( )repeatCount charz	, }
+//
+")).
+Eval vm_compute in ("<<<M4619>>>" ++ check (runes_of_ascii "  packet
+	metadata// `tick` ""quote"" 'q'
+  {
+
+    Z9_
+
+@lengthOf(
+
+    // `tick` ""quote"" 'q'
+  	// @lengthOf(
+
+	i64_
+
+    ),
+}  packet pack
+// " ++ [27880; 37322]%N ++ runes_of_ascii "
+  // " ++ [128512]%N ++ runes_of_ascii " emoji
+
+{
+	options1 @lengthOf(  asx ) , @leftPad
+
+( ' '
+)	@calculatedFrom( ""abc""
+)
+	    // `tick` ""quote"" 'q'
+	  // trailing space 
+      falsey  ,  // trailing space 
+  char[
+3
+]rootA
+,
+
+    } ")).
+Eval vm_compute in ("<<<M121>>>" ++ check (runes_of_ascii "root
+    packet stringy{ // trailing space 
+@calculatedFrom(
+""" ++ [28040; 24687]%N ++ runes_of_ascii """ ) repeat
+Foo {float64	i64_
+    @lengthOf(Z9_ ),	}
+    ,	repeat // `tick` ""quote"" 'q'
+lengthOf {
+falsey
+    { uint16 len//x
+,	} , Packet uint8x `a\`,} , @calculatedFrom(""" ++ [128512]%N ++ runes_of_ascii """)  string MetaDataX	`" ++ [233]%N ++ runes_of_ascii "`  ,} packet
+chars { @leftPad ( '0'
+    )i64 trueish
+@lengthOf( Z9_  )
+    ,
+}
+")).
+Eval vm_compute in ("<<<M3790>>>" ++ check (runes_of_ascii "packet crc {
+    match string_ as matchKey {
+        7 : matchKey,
+        007 : x,
+        65535 : BodyLength,
+        [00, 3] : u128,
+        [255, 0] : leftPad,
+        ""it's"" : u128,
+    },
+    @calculatedFrom("""")
+    match MetaDataX as int {
+        [3] : As,
+    },
+}
+
+packet falsey {
+}//
+
+options {
+    metadata = 255;
+}")).
+Eval vm_compute in ("<<<M1896>>>" ++ check (runes_of_ascii "MetaData
+    u { }  options {
+// c
+// @lengthOf(
+float = int8 int8 ;rootA =false ; As =	int16 // `tick` ""quote"" 'q'
+repeatCount
+    // trailing space 
+    =
+    int16
+; u8x =
+    //	t
+    '\x00' ; } options	{
+    repeatCount
+= 0
+u128
+    //
+    = false ; i64_
+// trailing space 
+// `tick` ""quote"" 'q'
+= '0' ; //	t
+}
+")).
+Eval vm_compute in ("<<<M1891>>>" ++ check (runes_of_ascii "MetaData
+    u { }  options {
+// c
+// @lengthOf(
+float = = int8 ;rootA =false ; As =	int16 // `tick` ""quote"" 'q'
+repeatCount
+    // trailing space 
+    =
+    int16
+; u8x =
+    //	t
+    '\x00' ; } options	{
+    repeatCount
+= 0
+u128
+    //
+    = false ; i64_
+// trailing space 
+// `tick` ""quote"" 'q'
+= '0' ; //	t
+}
+")).
+Eval vm_compute in ("<<<M1897>>>" ++ check (runes_of_ascii "MetaData
+    u { }  options {
+// c
+// @lengthOf(
+float = ; int8 rootA =false ; As =	int16 // `tick` ""quote"" 'q'
+repeatCount
+    // trailing space 
+    =
+    int16
+; u8x =
+    //	t
+    '\x00' ; } options	{
+    repeatCount
+= 0
+u128
+    //
+    = false ; i64_
+// trailing space 
+// `tick` ""quote"" 'q'
+= '0' ; //	t
+}
+")).
+Eval vm_compute in ("<<<M1947>>>" ++ check (runes_of_ascii "MetaData
+    u { }  options {
+// c
+// @lengthOf(
+float = int8 ;rootA =false ; As =	int16 // `tick` ""quote"" 'q'
+repeatCount
+    // trailing space 
+    int16
+    =
+; u8x =
+    //	t
+    '\x00' ; } options	{
+    repeatCount
+= 0
+u128
+    //
+    = false ; i64_
+// trailing space 
+// `tick` ""quote"" 'q'
+= '0' ; //	t
+}
+")).
+Eval vm_compute in ("<<<M1880>>>" ++ check (runes_of_ascii "MetaData
+    u { }  options 
+// c
+// @lengthOf(
+float = int8 ;rootA =false ; As =	int16 // `tick` ""quote"" 'q'
+repeatCount
+    // trailing space 
+    =
+    int16
+; u8x =
+    //	t
+    '\x00' ; } options	{
+    repeatCount
+= 0
+u128
+    //
+    = false ; i64_
+// trailing space 
+// `tick` ""quote"" 'q'
+= '0' ; //	t
+}
+")).
+Eval vm_compute in ("<<<M555>>>" ++ check (runes_of_ascii "MetaData repeatCount { char[ 4294967296 ]
+BodyLength `it's` , } packet Header { zchar[255] chars `line1
+line2` ,BodyLength
+    // " ++ [128512]%N ++ runes_of_ascii " emoji
+    tag// a // b
+,	} options { body // packet A { u8 x, }
+=""" ++ [28040; 24687]%N ++ runes_of_ascii """// @lengthOf(
+}
+    // `tick` ""quote"" 'q'
+    packet f32a { char metadata `// not a comment` , } /// triple")).
+Eval vm_compute in ("<<<M3913>>>" ++ check (runes_of_ascii "packet i64_ {
+    Z9_ @lengthOf(charz) `doc`,
+    Pad {
+        body @lengthOf(string_) `say ""hi""`,
+        uint64 metadata @lengthOf(Logon) `say ""hi""`,
+        zchar[3] f32a `{ , }`,
+        repeat uint8 leftPad,
+    },
+    char[] _x @lengthOf(As) `
+    `,
+    char[65535] matchKey `// not a comment`,
+}")).
+Eval vm_compute in ("<<<M679>>>" ++ check (runes_of_ascii "MetaData BodyLength { falsey
+    // packet A { u8 x, }
+    Logon  `{ , }` ,u8 int`" ++ [28040; 24687; 31867; 22411]%N ++ runes_of_ascii "`, zchar[7 ]// packet A { u8 x, }
+len/// triple
+,  }  MetaData// @lengthOf(
+u
+    {
+Logon matchKey
+`{ , }`	,	char[42 ]
+// packet A { u8 x, }
+/// triple
+int
+`line1
+line2`,
+    char[ 7
+    ] x_y_z
+    `doc` , }")).
+Eval vm_compute in ("<<<M3307>>>" ++ check (runes_of_ascii "// top
+root // c0
+packet // c1
+matchKey // c2
+{ // c3
+zchar[ // c4
+3 // c5
+] // c6
+pack // c7
+@calculatedFrom( // c8
+""a	b"" // c9
+) // c10
+`doc` // c11
+, // c12
+} // c13
+options // c14
+{ // c15
+} // c16
+MetaData // c17
+A // c18
+{ // c19
+int8 // c20
+msg_type // c21
+, // c22
+} // c23
+")).
+Eval vm_compute in ("<<<M82>>>" ++ check (runes_of_ascii "packet
+zchar {@rightPad (// a // b
+) uint8 a1 `line1
+line2` , @calculatedFrom( ""x y"" ) match pack as	matchKey
+{
+    /// triple
+    """ ++ [28040; 24687]%N ++ runes_of_ascii """  : //x
+u128 ,
+    3 : i64_
+    ""a\""b""
+    : As , } ,
+// " ++ [27880; 37322]%N ++ runes_of_ascii "
+// @lengthOf(
+u8 Packet	@calculatedFrom( ""// no comment"" ) //x
+,
+    }
+//
+")).
+Eval vm_compute in ("<<<M665>>>" ++ check (runes_of_ascii "
+packet
+    // " ++ [27880; 37322]%N ++ runes_of_ascii "
+    Logon
+    { match
+repeatCount as
+    // a // b
+    trueish { 1 //	t
+:
+    int[""" ++ [28040; 24687]%N ++ runes_of_ascii """ , 65535 ,
+// " ++ [27880; 37322]%N ++ runes_of_ascii "
+// a // b
+""{,}"" ,10 ,	42
+,007]: body,[ ""CRC32"" , ""x y"" ]:
+T ,// packet A { u8 x, }
+[ 42 ]: a1 , 7 :chars
+    , } // packet A { u8 x, }
+,}")).
+Eval vm_compute in ("<<<M1515>>>" ++ check (runes_of_ascii "packet
+//	t
+// trailing space 
+_x {
+// packet A { u8 x, }
+// c
+char[
+3
+    uint8 u8x @lengthOf(
+u8x ) , @calculatedFrom(""" ++ [128512]%N ++ runes_of_ascii """ // @lengthOf(
+)
+i16	Foo
+@lengthOf(	string_
+    )`doc`	, repeat	i64 metadata , @lengthOf( string_
+) i8 // c
+u  `line1
+line2`	,
+}
+")).
+Eval vm_compute in ("<<<M1623>>>" ++ check (runes_of_ascii "packet
+//	t
+// trailing space 
+_x {
+// packet A { u8 x, }
+// c
+char[
+3
+    ] u8x @lengthOf(
+u8x ) , @calculatedFrom(""" ++ [128512]%N ++ runes_of_ascii """ // @lengthOf(
+)
+i16	Foo
+@lengthOf(	string_
+    )`doc`	, repeat	i64 metadata , @lengthOf( string_
+) ) i8 // c
+u  `line1
+line2`	,
+}
+")).
+Eval vm_compute in ("<<<M1504>>>" ++ check (runes_of_ascii "packet
+//	t
+// trailing space 
+_x {
+// packet A { u8 x, }
+// c
+3
+char[
+    ] u8x @lengthOf(
+u8x ) , @calculatedFrom(""" ++ [128512]%N ++ runes_of_ascii """ // @lengthOf(
+)
+i16	Foo
+@lengthOf(	string_
+    )`doc`	, repeat	i64 metadata , @lengthOf( string_
+) i8 // c
+u  `line1
+line2`	,
+}
+")).
+Eval vm_compute in ("<<<M1645>>>" ++ check (runes_of_ascii "packet
+//	t
+// trailing space 
+_x {
+// packet A { u8 x, }
+// c
+char[
+3
+    ] u8x @lengthOf(
+u8x ) , @calculatedFrom(""" ++ [128512]%N ++ runes_of_ascii """ // @lengthOf(
+)
+i16	Foo
+@lengthOf(	string_
+    )`doc`	, repeat	i64 metadata , @lengthOf( string_
+) i8 // c
+u  `line1
+line2`	}
+}
+")).
+Eval vm_compute in ("<<<M1557>>>" ++ check (runes_of_ascii "packet
+//	t
+// trailing space 
+_x {
+// packet A { u8 x, }
+// c
+char[
+3
+    ] u8x @lengthOf(
+u8x ) , @calculatedFrom(""" ++ [128512]%N ++ runes_of_ascii """ // @lengthOf(
+)
+	Foo
+@lengthOf(	string_
+    )`doc`	, repeat	i64 metadata , @lengthOf( string_
+) i8 // c
+u  `line1
+line2`	,
+}
+")).
+Eval vm_compute in ("<<<M4418>>>" ++ check (runes_of_ascii "packet tag {
+    int8 packetx,
+}
+
+packet Foo {
+    //x
+    repeatCount @calculatedFrom(""x y""),
+    char[00] As @lengthOf(a1) `crlf
+    line`,
+    @tag(10)
+    len {
+        char[10] matchKey `" ++ [233]%N ++ runes_of_ascii "`,
+        f32a @lengthOf(u128) `it's`,
+    },
+}")).
+Eval vm_compute in ("<<<M854>>>" ++ check (runes_of_ascii "
+packet// packet A { u8 x, }
+Z9_
+    {} MetaData	falsey { string
+    len
+    // " ++ [128512]%N ++ runes_of_ascii " emoji
+    `tab	here` ,
+/// triple
+// `tick` ""quote"" 'q'
+i32 asx ,
+    uint8 pack
+    , } options // " ++ [27880; 37322]%N ++ runes_of_ascii "
+{_x = // trailing space 
+true
+// " ++ [27880; 37322]%N ++ runes_of_ascii "
+// " ++ [27880; 37322]%N ++ runes_of_ascii "
+}
+
+")).
+Eval vm_compute in ("<<<M4377>>>" ++ check (runes_of_ascii "packet Foo {
+    match i64_ as x_y_z {
+        65535 : BodyLength,
+        [3, ""CRC32""] : u,
+        255 : T,
+        [""x y""] : leftPad,
+        0123456789 : As,
+    },
+    zchar[1] int,
+}
+
+packet float {
+    uint16 Packet,
+}")).
+Eval vm_compute in ("<<<M4412>>>" ++ check (runes_of_ascii "
+packet	i64_  {
+match	tag
+as
+x
+
+    {	""" ++ [128512]%N ++ runes_of_ascii """: string_
+, ""a\\""	: rootA
+	,	""abc""  :pack
+
+,
+	} ,
+
+    @tag(  3 ) // @lengthOf(
+	string 
+metadata
+, string
+
+    stringy
+
+`u8 x,` 
+    // @lengthOf(
+
+  // a // b
+  , }")).
+Eval vm_compute in ("<<<M1220>>>" ++ check (runes_of_ascii "MetaData a1 {char[]  repeatCount
+    `it's`, char[  4294967296 // @lengthOf(
+]
+    i8i8// c
+`// not a comment`
+    // packet A { u8 x, }
+    ,
+// @lengthOf(
+/// triple
+float32 zchar , } packet calculatedFrom{ }
+")).
+Eval vm_compute in ("<<<M1722>>>" ++ check (runes_of_ascii "options { trueish = ""`tick`"" ; string_= """ ++ [233]%N ++ runes_of_ascii "t" ++ [233]%N ++ runes_of_ascii """
+    // c
+    } root root
     packet body { stringy @calculatedFrom(
 ""a	b"" ) `line1
 line2` , }
@@ -1936,18 +1989,6 @@ packet Logon {
 u16 string_ `u8 x,` ,
 }
 ")).
-Eval vm_compute in ("<<<M3990>>>" ++ check (runes_of_ascii "options {
-    As = ""1"";
-    matchKey = 0123456789
-    options1 = 0123456789;// a // b
-    asx = ""CRC32"";
-    tag = 00;
-}// trailing space 
-
-packet matchKey {
-    @calculatedFrom(""abc"")
-    int32 repeatCount,
-}")).
 Eval vm_compute in ("<<<M1832>>>" ++ check (runes_of_ascii "options { trueish = ""`tick`"" ; string_= """ ++ [233]%N ++ runes_of_ascii "t" ++ [233]%N ++ runes_of_ascii """
     // c
     } root
@@ -1972,18 +2013,23 @@ packet Logon {
 u16 string_ `u8 x,` ,
 }
 ")).
-Eval vm_compute in ("<<<M865>>>" ++ check (runes_of_ascii "packet calculatedFrom
-    { @calculatedFrom(
-""{,}"" )
-    // c
-    @tag(
-    65535 ) f32 Packet @lengthOf(o )
-    , @calculatedFrom(  ""`tick`"" ) uint32 MetaDataX  @calculatedFrom(""it's""  ) ``,
-} // a // b")).
-Eval vm_compute in ("<<<M1731>>>" ++ check (runes_of_ascii "options { trueish = ""`tick`"" ; string_= """ ++ [233]%N ++ runes_of_ascii "t" ++ [233]%N ++ runes_of_ascii """
+Eval vm_compute in ("<<<M4109>>>" ++ check (runes_of_ascii "packet A {
+    match k as n {
+        ""\
+                "" : B,
+        [""\
+                "", 1] : C,
+        [
+            1, 2, 3, 4, 5,
+            ""\
+                        ""
+        ] : D,
+    },
+}")).
+Eval vm_compute in ("<<<M1855>>>" ++ check (runes_of_ascii "options { trueish = ""`tick`"" ; a" ++ [769]%N ++ runes_of_ascii "b= """ ++ [233]%N ++ runes_of_ascii "t" ++ [233]%N ++ runes_of_ascii """
     // c
     } root
-    packet  { stringy @calculatedFrom(
+    packet body { stringy @calculatedFrom(
 ""a	b"" ) `line1
 line2` , }
 packet Logon {
@@ -1992,24 +2038,30 @@ packet Logon {
 u16 string_ `u8 x,` ,
 }
 ")).
-Eval vm_compute in ("<<<M657>>>" ++ check (runes_of_ascii "packet u8x{@calculatedFrom( """ ++ [128512]%N ++ runes_of_ascii """ )
-rootA @lengthOf(stringy ), lengthOf ,@lengthOf(  u8x )
-    i64_ @calculatedFrom( ""a\""b""//x
-) ,
-@lengthOf( matchKey )
-@lengthOf( rootA	) float32 trueish
-,  } // " ++ [27880; 37322]%N)).
-Eval vm_compute in ("<<<M1761>>>" ++ check (runes_of_ascii "options { trueish = ""`tick`"" ; string_= """ ++ [233]%N ++ runes_of_ascii "t" ++ [233]%N ++ runes_of_ascii """
+Eval vm_compute in ("<<<M1691>>>" ++ check (runes_of_ascii "options { trueish =  ; string_= """ ++ [233]%N ++ runes_of_ascii "t" ++ [233]%N ++ runes_of_ascii """
     // c
     } root
     packet body { stringy @calculatedFrom(
-""a	b"" )  , }
+""a	b"" ) `line1
+line2` , }
 packet Logon {
     @leftPad(
     ' ' ) //	t
 u16 string_ `u8 x,` ,
 }
 ")).
+Eval vm_compute in ("<<<M1979>>>" ++ check (runes_of_ascii "MetaData
+    u { }  options {
+// c
+// @lengthOf(
+float = int8 ;rootA =false ; As =	int16 // `tick` ""quote"" 'q'
+repeatCount
+    // trailing space 
+    =
+    int16
+; u8x =
+    //	t
+    '\x00'")).
 Eval vm_compute in ("<<<M1820>>>" ++ check (runes_of_ascii "options { trueish = ""`tick`"" ; string_= """ ++ [233]%N ++ runes_of_ascii "t" ++ [233]%N ++ runes_of_ascii """
     // c
     } root
@@ -2020,47 +2072,79 @@ packet Logon {
     @leftPad(
     ' ' ) //	t
 u16")).
-Eval vm_compute in ("<<<M4216>>>" ++ check (runes_of_ascii "// `tick` ""quote"" 'q'
-MetaData body {
-    zchar[0] asx `a\`,
-    float crc,
-    f32 trueish `crlf
-        line`,
-    uint64 float,
-    body u `
-        `,
-    int16 stringy,
+Eval vm_compute in ("<<<M3866>>>" ++ check (runes_of_ascii "packet Logon {
+    repeat u64 a1 `u8 x,`,
+    uint16 string_ @lengthOf(BodyLength),
+    @tag(7)
+    @tag(7)
+    @rightPad(' ')
+    metadata,
+    repeat char[007] Foo `u8 x,`,
 }")).
-Eval vm_compute in ("<<<M1836>>>" ++ check (runes_of_ascii "options { trueish = ""`tick`"" ; string_= """ ++ [233]%N ++ runes_of_ascii "t" ++ [233]%N ++ runes_of_ascii """
-    // c
-    } root
-    packet body { stringy @calculatedFrom(
-""a	b"" ) `line1
-line2` , }
-packet Logon {
-    @leftPad(
-    ' ")).
-Eval vm_compute in ("<<<M2393>>>" ++ check (runes_of_ascii "// c
+Eval vm_compute in ("<<<M1238>>>" ++ check (runes_of_ascii "packet	body {
+    // @lengthOf(
+    body
+    trueish , repeat MetaDataX
+string_,  char[] asx `say ""hi""`
+, char
+// a // b
+// " ++ [128512]%N ++ runes_of_ascii " emoji
+int@calculatedFrom(""packet""
+    )
+,}
+")).
+Eval vm_compute in ("<<<M3949>>>" ++ check (runes_of_ascii "
+options	{
+    Pad  =zchar[
+0 ] ;  tag=char[ 
+4294967296	] ;
+
+    u128  =
+
+    false;	}  MetaData repeatCount 
+{u16
+	u128
+	,} 
+options 
+{  leftPad = '0' ;
+	}
+
+")).
+Eval vm_compute in ("<<<M473>>>" ++ check (runes_of_ascii "packet
+    o {  asx @calculatedFrom( ""CRC32""	)// " ++ [27880; 37322]%N ++ runes_of_ascii "
+`it's`
+    ,// @lengthOf(
+@tag( 255 )
+int16 T	, string
+msg_type `
+`
+, } // trailing space 
+packet Z9_ {	}
+")).
+Eval vm_compute in ("<<<M2117>>>" ++ check (runes_of_ascii "options{
+_x
+= true
+} options
+{ string	= /// triple
+false
+    ; chars
+= ""\n"" } root packet	Pad
+/// triple
+// packet A { u8 x, }
+{	chars
+    // a // b
+    ,}")).
+Eval vm_compute in ("<<<M2422>>>" ++ check (runes_of_ascii "// c
 packet x { @lengthOf( metadata ) repeat lengthOf
 ,a1{
 trueish	,// c
 repeat//	t
-MetaDataX , } , zchar[
-    4@lengthOf2	] rootA // `tick` ""quote"" 'q'
+MetaDataX , , } , zchar[
+    42	] rootA // `tick` ""quote"" 'q'
 ,
     }
 ")).
-Eval vm_compute in ("<<<M2408>>>" ++ check (runes_of_ascii "// c
-packet x { @lengthOf( metadata ) repeat lengthOf
-,a1{
-trueish	,// c
-repeat//	t
-MetaDataX , } , zchar[
-    42	] rootA // `tick` ""quote"" 'q'
-,'\x01'
-    }
-")).
-Eval vm_compute in ("<<<M2172>>>" ++ check (runes_of_ascii "options{
+Eval vm_compute in ("<<<M2180>>>" ++ check (runes_of_ascii "options{
 _x
 = true
 } options
@@ -2070,33 +2154,10 @@ false
 = ""\n"" } root packet	Pad
 /// triple
 // packet A { u8 x, }
-uint64	chars
-    // a // b
-    ,}")).
-Eval vm_compute in ("<<<M2142>>>" ++ check (runes_of_ascii "options{
-_x
-= true
-} options
-{ o	= /// triple
-false
-    ; chars
-root ""\n"" } root packet	Pad
-/// triple
-// packet A { u8 x, }
 {	chars
     // a // b
-    ,}")).
-Eval vm_compute in ("<<<M2324>>>" ++ check (runes_of_ascii "// c
-packet x { @lengthOf( metadata ) repeat lengthOf
-,a1{
-trueish	repeat// c
-,//	t
-MetaDataX , } , zchar[
-    42	] rootA // `tick` ""quote"" 'q'
-,
-    }
-")).
-Eval vm_compute in ("<<<M2200>>>" ++ check (runes_of_ascii "options{
+    , ,}")).
+Eval vm_compute in ("<<<M2194>>>" ++ check (runes_of_ascii "options{
 _x
 = true
 } options
@@ -2105,274 +2166,303 @@ false
     ; chars
 = ""\n"" } root packet	Pad
 /// triple
-// packet A { u?8 x, }
+// packet A { u8 x, }
+{	chars
+  " ++ [127]%N ++ runes_of_ascii "  // a // b
+    ,}")).
+Eval vm_compute in ("<<<M2131>>>" ++ check (runes_of_ascii "options{
+_x
+= true
+} options
+{ o	= /// triple
+false
+    chars ;
+= ""\n"" } root packet	Pad
+/// triple
+// packet A { u8 x, }
 {	chars
     // a // b
     ,}")).
-Eval vm_compute in ("<<<M2156>>>" ++ check (runes_of_ascii "options{
+Eval vm_compute in ("<<<M2139>>>" ++ check (runes_of_ascii "options{
 _x
 = true
 } options
 { o	= /// triple
 false
     ; chars
-= ""\n"" } packet root	Pad
+ ""\n"" } root packet	Pad
 /// triple
 // packet A { u8 x, }
 {	chars
     // a // b
     ,}")).
-Eval vm_compute in ("<<<M4222>>>" ++ check (runes_of_ascii "options {
-    matchKey = 10
+Eval vm_compute in ("<<<M4456>>>" ++ check (runes_of_ascii "
+/// triple
+  	options{
+
+Header 
+=
+    65535 ;	calculatedFrom  =  ""x y""trueish=  true  i8i8=false
+
+    metadata 	 // trailing space 
+=  """ ++ [28040; 24687]%N ++ runes_of_ascii """ 
+;	} ")).
+Eval vm_compute in ("<<<M3763>>>" ++ check (runes_of_ascii "packet A {
+    match k as n {
+        [
+            ""a"", 22, ""c c"", 4, ""e"",
+            66, ""g"", 8, ""i"", 10
+        ] : B,
+        2 : C,
+    },
+}")).
+Eval vm_compute in ("<<<M518>>>" ++ check (runes_of_ascii "
+MetaData packetx
+    {	len Packet ,x
+// `tick` ""quote"" 'q'
+// a // b
+A ,
+matchKey lengthOf `{ , }`
+    , char[
+7 ]
+    Z9_ , A
+    rootA,
+}
+")).
+Eval vm_compute in ("<<<M4429>>>" ++ check (runes_of_ascii "packet  rootA  { } 
+	    // `tick` ""quote"" 'q'
+  /// triple
+	options
+{ 
+stringy
+	=0123456789 ; T= 
+42
+; 
+string_ 
+=
+    ""a\""b""; } 
+//
+ 
+")).
+Eval vm_compute in ("<<<M3823>>>" ++ check (runes_of_ascii "packet A {
+    u8 a,
 }
 
-MetaData options1 {
-    matchKey o `doc`,
-    rootA tag,
-    uint32 _x `line1
-    line2`,
-    char[] chars `say ""hi""`,
+packet B {
+    u16 b,
+}
+
+root packet P {
+    u8 K,
+    match K as M {
+        1 : A,
+        1 : B,
+    },
 }")).
-Eval vm_compute in ("<<<M3544>>>" ++ check (runes_of_ascii "packet B
+Eval vm_compute in ("<<<M4615>>>" ++ check (runes_of_ascii "
+options {
+a1  /// triple
+  	= ""1"" 
+;
+
+    trueish
+
+= i64
+    ; stringy
+=
+
+""" ++ [128512]%N ++ runes_of_ascii """ ;
+u8x 
+=
+255
+
+    ;
+	u128
+=""`tick`""
+; }
+
+")).
+Eval vm_compute in ("<<<M1009>>>" ++ check (runes_of_ascii "root packet // @lengthOf(
+options1
+{ repeat f32a, @calculatedFrom( ""\n"" )
+    i8 Packet ,
+    }  options { a1 = uint64  ;
+}")).
+Eval vm_compute in ("<<<M3316>>>" ++ check (runes_of_ascii "root packet matchKey // c
+{ zchar[ 3 ] pack @calculatedFrom( ""a	b"" ) `doc` , } options { } MetaData A { int8 msg_type , }")).
+Eval vm_compute in ("<<<M3348>>>" ++ check (runes_of_ascii "root packet matchKey { zchar[ 3 ] pack @calculatedFrom( ""a	b"" ) `doc` , } options { } MetaData A // c
+{ int8 msg_type , }")).
+Eval vm_compute in ("<<<M4183>>>" ++ check (runes_of_ascii "MetaData msg_type {
+    Packet int,
+    char[3] Foo `// not a comment`,
+    zchar[7] uint8x,
+    leftPad crc `
+    `,
+}")).
+Eval vm_compute in ("<<<M1424>>>" ++ check (runes_of_ascii "
+packet
+    falsey { Header@calculatedFrom()  ""packet"" , char[
+    0123456789 ] packetx
+    , } // `tick` ""quote"" 'q'")).
+Eval vm_compute in ("<<<M3970>>>" ++ check (runes_of_ascii "
+packet chars
 
 {
-	u8
-a
-, }
-    root
+}
 	packet
-    P {u8
-K
+	MetaDataX // c
+  {  @tag(
+42 ) i16
+string_
+	,
+    repeat x
 
-    ,u8
-L
-    @lengthOf( Body
-) ,	match
-K
-as
-Body {	1
+    `say ""hi""` ,
 
-    :
+    }")).
+Eval vm_compute in ("<<<M814>>>" ++ check (runes_of_ascii "packet MetaDataX // c
+{
+i8i8  @calculatedFrom( ""a\""b"") `
+`
+    ,@calculatedFrom(""a\\"" )leftPad , }
+// " ++ [128512]%N ++ runes_of_ascii " emoji
+")).
+Eval vm_compute in ("<<<M47>>>" ++ check (runes_of_ascii "options
+{ options1= uint64 ;	}
+root packet /// triple
+T {MetaDataX//x
+`// not a comment` , } packet crc {}
+")).
+Eval vm_compute in ("<<<M3833>>>" ++ check (runes_of_ascii "
+packet A {	match k
+	as
+
+n {
+
+    [""a"",
+
+    ""bb""
+
+,
+
+    007 ,
+""d""
+
+] :
 	B
 
-    ,	}
+    ,  2 
+:
+	C
+}, }
 
-    ,
-}
 ")).
-Eval vm_compute in ("<<<M2104>>>" ++ check (runes_of_ascii "options{
-_x
-= true
-} 
-{ o	= /// triple
-false
-    ; chars
-= ""\n"" } root packet	Pad
-/// triple
-// packet A { u8 x, }
-{	chars
-    // a // b
-    ,}")).
-Eval vm_compute in ("<<<M3550>>>" ++ check (runes_of_ascii "packet
-	B {
+Eval vm_compute in ("<<<M4329>>>" ++ check (runes_of_ascii "
 
-    u8
-
-a ,}  root  packet  P
-	{
-    u8
-    K, 
-match
-    K
-
-    as	Body
+  options
 
 {
-
-1
-: B	,
-	},
-
-u16
-    L
-
-@lengthOf(
-
-Body)
-	,}
-")).
-Eval vm_compute in ("<<<M4557>>>" ++ check (runes_of_ascii "
-
-  root packet
-
-matchKey {
-    zchar[ 3]pack
-@calculatedFrom( 
-// c
-  ""a	b""
-) `doc`
-	,  }  options
-{} MetaData A  { int8 msg_type,}
-
-")).
-Eval vm_compute in ("<<<M4236>>>" ++ check (runes_of_ascii "packet	A{ match	k
-as  n
-
-    { [
-    1
-
-,
-	22
-
-,  007 ,
-4 , 5	,  66 ,
-
-    7
-
-, 8,
-9
-
-    ,	10]:B
-    2
-	:C} 
-,
-
-    }
-")).
-Eval vm_compute in ("<<<M1453>>>" ++ check (runes_of_ascii "
-packet
-    falsey { Header@calculatedFrom(""packet""  ) , char[
-    0123456789 ] packetx packetx
-    , } // `tick` ""quote"" 'q'")).
-Eval vm_compute in ("<<<M607>>>" ++ check (runes_of_ascii "options
-{ stringy=
-    '0' ; body// `tick` ""quote"" 'q'
-=  ""// no comment"" ; pack
-    =
-char[] } options
-{
-x =65535 } //x")).
-Eval vm_compute in ("<<<M3322>>>" ++ check (runes_of_ascii "root packet matchKey { zchar[ 3 // c
-] pack @calculatedFrom( ""a	b"" ) `doc` , } options { } MetaData A { int8 msg_type , }")).
-Eval vm_compute in ("<<<M3354>>>" ++ check (runes_of_ascii "root packet matchKey { zchar[ 3 ] pack @calculatedFrom( ""a	b"" ) `doc` , } options { } MetaData A { int8 msg_type // c
-, }")).
-Eval vm_compute in ("<<<M1476>>>" ++ check (runes_of_ascii "
-packet
-    falsey { Header@calculatedFrom(""packet""  ) , char[
-    0123456789 ] packetx
-    , } // `tick` ""quote"" 'q'#")).
-Eval vm_compute in ("<<<M3734>>>" ++ check (runes_of_ascii "// top
-root packet P {
-    // c3a
-    // c3b
-    hdr {
-        // c5a
-        // c5b
-        u8 a,
-    },
-    u8 x,
-}")).
-Eval vm_compute in ("<<<M4168>>>" ++ check (runes_of_ascii "packet A {
-    B b `a
-        
-        b`,
-    B `a
-        
-        b`,
-    repeat B bs `a
-        
-        b`,
-}")).
-Eval vm_compute in ("<<<M2998>>>" ++ check (runes_of_ascii "packet A {
-  match k as n {
-    [""a"", ""bb"", 007, ""d"", ""e"", 66, ""g"", ""h"", 9, ""j"", ""k"", 12] : B,
-    2 : C
-  },
-}")).
-Eval vm_compute in ("<<<M1755>>>" ++ check (runes_of_ascii "options { trueish = ""`tick`"" ; string_= """ ++ [233]%N ++ runes_of_ascii "t" ++ [233]%N ++ runes_of_ascii """
-    // c
-    } root
-    packet body { stringy @calculatedFrom(")).
-Eval vm_compute in ("<<<M440>>>" ++ check (runes_of_ascii "// `tick` ""quote"" 'q'
-packet
-    trueish {
-    @lengthOf(
-MetaDataX ) uint8x	@calculatedFrom(""a\""b""  ) ,}")).
-Eval vm_compute in ("<<<M1318>>>" ++ check (runes_of_ascii "options	{ string_ // " ++ [128512]%N ++ runes_of_ascii " emoji
-= false ; } options { options1
-= '\x00' falsey=
-10 tag/// triple
-=65535}
-")).
-Eval vm_compute in ("<<<M2968>>>" ++ check (runes_of_ascii "packet A {
-  match k as n {
-    [""a"", 22, ""c c"", 4, ""e"", 66, ""g"", 8, ""i"", 10] : B,
-    2 : C
-  },
-}")).
-Eval vm_compute in ("<<<M962>>>" ++ check (runes_of_ascii "packet
-int
-    { @calculatedFrom( ""a\\""
-    ) repeat
-    // packet A { u8 x, }
-    string int, }")).
-Eval vm_compute in ("<<<M2956>>>" ++ check (runes_of_ascii "packet A {
-  match k as n {
-    [""a"", 22, ""c c"", 4, ""e"", 66, ""g"", 8, ""i""] : B
-    2 : C
-  },
-}")).
-Eval vm_compute in ("<<<M1750>>>" ++ check (runes_of_ascii "options { trueish = ""`tick`"" ; string_= """ ++ [233]%N ++ runes_of_ascii "t" ++ [233]%N ++ runes_of_ascii """
-    // c
-    } root
-    packet body { stringy")).
-Eval vm_compute in ("<<<M181>>>" ++ check (runes_of_ascii "MetaData a1 { Foo body
-`{ , }`
-    , int32
-int`` ,i32 a1 `" ++ [28040; 24687; 31867; 22411]%N ++ runes_of_ascii "`
-, int8 msg_type `` , }
-
-")).
-Eval vm_compute in ("<<<M3290>>>" ++ check (runes_of_ascii "MetaData float { float64 charz `
-` , } root packet chars
-// c
-{ @rightPad ( '0' ) Foo , }")).
-Eval vm_compute in ("<<<M3501>>>" ++ check (runes_of_ascii "packet chars { } packet MetaDataX { @tag( 42 // c
-) i16 string_ , repeat x `say ""hi""` , }")).
-Eval vm_compute in ("<<<M2284>>>" ++ check (runes_of_ascii "options
-{ } options { BodyLength= u16 Header= f64 ; u128 =
+	LittleEndian 
+=
     true
-    i16 } // a // b")).
-Eval vm_compute in ("<<<M3020>>>" ++ check (runes_of_ascii "packet A {
-    B b `a
-    b
-  c`,
-    B `a
-    b
-  c`,
-    repeat B bs `a
-    b
-  c`,
+
+    ; } root packet P{  repeat char
+    cs
+,
+
+u8 x
+    , 
 }")).
-Eval vm_compute in ("<<<M2278>>>" ++ check (runes_of_ascii "options
-{ } options { BodyLength= u16 Header= f64 ; u128 =
-    ;
-    true } // a // b")).
-Eval vm_compute in ("<<<M3240>>>" ++ check (runes_of_ascii "packet metadata { Logon { A `" ++ [28040; 24687; 31867; 22411]%N ++ runes_of_ascii "` , tag o , } , zchar
+Eval vm_compute in ("<<<M758>>>" ++ check (runes_of_ascii "
+options {
+    rootA
+    =	i64 i64_ = true matchKey
+='\x00'  charz // packet A { u8 x, }
+=false ; }")).
+Eval vm_compute in ("<<<M2983>>>" ++ check (runes_of_ascii "packet A {
+  match k as n {
+    [1, 22, ""c c"", 4, 5, ""f"", 7, 8, ""i"", 10, 11] : B,
+    2 : C
+  },
+}")).
+Eval vm_compute in ("<<<M4016>>>" ++ check (runes_of_ascii "options {
+    options1 = char[00];
+    len = """ ++ [128512]%N ++ runes_of_ascii """;
+    a1 = 42
+    Header = ' '
+}
+
+packet Foo {
+}")).
+Eval vm_compute in ("<<<M2975>>>" ++ check (runes_of_ascii "packet A {
+  match k as n {
+    [1, 22, 007, 4, 5, 66, 7, 8, 9, 10, 11] : B,
+    2 : C
+  },
+}")).
+Eval vm_compute in ("<<<M3566>>>" ++ check (runes_of_ascii "
+
+  root
+packet
+
+    P {
+
+u16 a
+,u32	Sum
+	@calculatedFrom(
+
+    ""CRC32""
+
+    ) , 
+} ")).
+Eval vm_compute in ("<<<M2940>>>" ++ check (runes_of_ascii "packet A {
+  match k as n {
+    [1, ""bb"", 007, ""d"", 5, ""f"", 7, ""h""] : B,
+    2 : C
+  },
+}")).
+Eval vm_compute in ("<<<M3296>>>" ++ check (runes_of_ascii "MetaData float { float64 charz `
+` , } root packet chars { @rightPad (
 // c
-len `// not a comment` , }")).
-Eval vm_compute in ("<<<M3427>>>" ++ check (runes_of_ascii "// c
+'0' ) Foo , }")).
+Eval vm_compute in ("<<<M3507>>>" ++ check (runes_of_ascii "packet chars { } packet MetaDataX { @tag( 42 ) i16 string_ // c
+, repeat x `say ""hi""` , }")).
+Eval vm_compute in ("<<<M2746>>>" ++ check (runes_of_ascii "`// not a comment` true ' ' ; packet i8 int8 @calculatedFrom( string u32 = string char[]")).
+Eval vm_compute in ("<<<M4013>>>" ++ check (runes_of_ascii "packet A {
+    match k as n {
+        [1, 22, ""c c"", 4, 5] : B,
+        2 : C,
+    },
+}")).
+Eval vm_compute in ("<<<M3215>>>" ++ check (runes_of_ascii "packet metadata // c
+{ Logon { A `" ++ [28040; 24687; 31867; 22411]%N ++ runes_of_ascii "` , tag o , } , zchar len `// not a comment` , }")).
+Eval vm_compute in ("<<<M3428>>>" ++ check (runes_of_ascii "
+// c
 packet o { repeat Logon uint8x , } options { asx = zchar[ 3 ] stringy = '\x00' }")).
-Eval vm_compute in ("<<<M3460>>>" ++ check (runes_of_ascii "packet o { repeat Logon uint8x , } options { asx = zchar[ 3 ] stringy
+Eval vm_compute in ("<<<M3438>>>" ++ check (runes_of_ascii "packet o { repeat Logon
 // c
-= '\x00' }")).
-Eval vm_compute in ("<<<M2269>>>" ++ check (runes_of_ascii "options
-{ } options { BodyLength= u16 Header= f64 ; = =
+uint8x , } options { asx = zchar[ 3 ] stringy = '\x00' }")).
+Eval vm_compute in ("<<<M2259>>>" ++ check (runes_of_ascii "options
+{ } options { BodyLength= u16 Header= ] ; u128 =
     true
     ; } // a // b")).
-Eval vm_compute in ("<<<M3405>>>" ++ check (runes_of_ascii "MetaData body { i64 pack `it's`
+Eval vm_compute in ("<<<M4306>>>" ++ check (runes_of_ascii "packet Inner { u8
+a ,} root
+
+packet
+
+    P
+
+{ 
+repeat
+Inner
+items ,
+u8 x  ,}
+
+")).
+Eval vm_compute in ("<<<M3413>>>" ++ check (runes_of_ascii "MetaData body { i64 pack `it's` , } packet stringy
 // c
-, } packet stringy { int16 calculatedFrom , }")).
+{ int16 calculatedFrom , }")).
 Eval vm_compute in ("<<<M282>>>" ++ check (runes_of_ascii "
 packet charz{ repeat u16 Foo`{ , }`// c
 ,
@@ -2380,141 +2470,152 @@ packet charz{ repeat u16 Foo`{ , }`// c
 //
 } options
     { crc = """ ++ [28040; 24687]%N ++ runes_of_ascii """ ;	}")).
-Eval vm_compute in ("<<<M415>>>" ++ check (runes_of_ascii "MetaData T { char[] packetx //	t
-,//
-Packet
-    u ,i32 _x , uint16
-    asx, }
-")).
-Eval vm_compute in ("<<<M83>>>" ++ check (runes_of_ascii "MetaData
-Packet
+Eval vm_compute in ("<<<M3250>>>" ++ check (runes_of_ascii "// top
+root
+    // c0
+packet
+    // c1
+pack
+    // c2
 {
-    }options { Z9_ =
-char[] ; _x=
-'0';
-body
-=
-false }
+    // c3
+}
+    // c4
 ")).
-Eval vm_compute in ("<<<M3044>>>" ++ check (runes_of_ascii "packet A {
-    B b `tab
-	x`,
-    B `tab
-	x`,
-    repeat B bs `tab
-	x`,
-}")).
-Eval vm_compute in ("<<<M2882>>>" ++ check (runes_of_ascii "packet A {
-  match k as n {
-    [""a"", ""bb"", 007] : B
-    2 : C
-  },
-}")).
-Eval vm_compute in ("<<<M608>>>" ++ check (runes_of_ascii "root packet
-    f32a
-    { @tag( 42
-    ) char
-Header `
-`	,
-    }
-")).
-Eval vm_compute in ("<<<M4076>>>" ++ check (runes_of_ascii "options {
-    zchar = 10
-    As = u32;
-    A = ""a\\""// " ++ [128512]%N ++ runes_of_ascii " emoji
-}")).
-Eval vm_compute in ("<<<M2869>>>" ++ check (runes_of_ascii "packet A {
-  match k as n {
-    [""a"", 22] : B
-    2 : C
-  },
-}")).
-Eval vm_compute in ("<<<M3388>>>" ++ check (runes_of_ascii "packet x { @rightPad ( ) repeat roots Logon `doc` , }
-// c
-")).
-Eval vm_compute in ("<<<M3380>>>" ++ check (runes_of_ascii "packet x { @rightPad ( ) repeat roots
-// c
-Logon `doc` , }")).
-Eval vm_compute in ("<<<M2858>>>" ++ check (runes_of_ascii "packet A {
-  match k as n {
-    [1] : B
-    2 : C
-  },
-}")).
-Eval vm_compute in ("<<<M2133>>>" ++ check (runes_of_ascii "options{
-_x
-= true
-} options
-{ o	= /// triple
-false")).
-Eval vm_compute in ("<<<M3570>>>" ++ check (runes_of_ascii "
+Eval vm_compute in ("<<<M4269>>>" ++ check (runes_of_ascii "MetaData
+// a // b
+	options1
 
-  root
-
-    packet
-P
-
-{ string
-s
-
-    ,	}
-")).
-Eval vm_compute in ("<<<M1034>>>" ++ check (runes_of_ascii "MetaData charz {calculatedFrom leftPad
-    ,}
-")).
-Eval vm_compute in ("<<<M272>>>" ++ check (runes_of_ascii "
-root  packet zchar
-    {zchar[007] Foo , }")).
-Eval vm_compute in ("<<<M2730>>>" ++ check (runes_of_ascii "@tag( } ""\n"" MetaData { @calculatedFrom( ]")).
-Eval vm_compute in ("<<<M3189>>>" ++ check (runes_of_ascii "root // c
-packet u128 { chars `it's` , }")).
-Eval vm_compute in ("<<<M1158>>>" ++ check (runes_of_ascii "options {
-zchar =  int32 ; T = false}
-")).
-Eval vm_compute in ("<<<M2617>>>" ++ check (runes_of_ascii "packet A { match k as n { 1 : 2 }, }")).
-Eval vm_compute in ("<<<M3827>>>" ++ check (runes_of_ascii "
-packet  repeatCount 
-{ } 	 // c
+{
+	Pad
+    options1 ,  // " ++ [27880; 37322]%N ++ runes_of_ascii "
+} 
+// " ++ [128512]%N ++ runes_of_ascii " emoji
  
 ")).
-Eval vm_compute in ("<<<M931>>>" ++ check (runes_of_ascii "root packet stringy {
-_x Pad , }
-")).
-Eval vm_compute in ("<<<M3127>>>" ++ check (runes_of_ascii "packet A {
- u8 x `d 	`, // c 	
+Eval vm_compute in ("<<<M2891>>>" ++ check (runes_of_ascii "packet A {
+  match k as n {
+    [""a"", 22, ""c c"", 4] : B
+    2 : C
+  },
 }")).
-Eval vm_compute in ("<<<M2761>>>" ++ check (runes_of_ascii "@rightPad ( ) float64 root u64")).
-Eval vm_compute in ("<<<M3161>>>" ++ check (runes_of_ascii "MetaData M {
-}// c
-options {}")).
-Eval vm_compute in ("<<<M2806>>>" ++ check (runes_of_ascii "P" ++ [65533; 65533; 23; 65533; 65533]%N ++ runes_of_ascii "0f" ++ [65533; 3; 521]%N ++ runes_of_ascii "'" ++ [65533]%N ++ runes_of_ascii "bW" ++ [18; 65533; 14; 21]%N ++ runes_of_ascii "~" ++ [65533; 65533; 12; 1709; 65533; 65533; 127]%N)).
-Eval vm_compute in ("<<<M1342>>>" ++ check (runes_of_ascii "// packet A { u8 x, }
- 	 ")).
-Eval vm_compute in ("<<<M3168>>>" ++ check (runes_of_ascii "packet A { // a
- u8 x, }")).
-Eval vm_compute in ("<<<M703>>>" ++ check (runes_of_ascii "  root  packet As { }")).
-Eval vm_compute in ("<<<M3478>>>" ++ check (runes_of_ascii "MetaData o { } // c
+Eval vm_compute in ("<<<M4609>>>" ++ check (runes_of_ascii "// trailing space 
+
+packet /// triple
+Foo{  zchar[	255
+
+]  body	,  }
+
 ")).
-Eval vm_compute in ("<<<M3146>>>" ++ check (runes_of_ascii "// c x
-packet A {
+Eval vm_compute in ("<<<M2880>>>" ++ check (runes_of_ascii "packet A {
+  match k as n {
+    [1, 22, ""c c""] : B
+    2 : C
+  },
 }")).
-Eval vm_compute in ("<<<M3075>>>" ++ check (runes_of_ascii "packet A {
+Eval vm_compute in ("<<<M976>>>" ++ check (runes_of_ascii "// trailing space 
+packet/// triple
+Foo
+{ zchar[ 255 ]body	,
 }
-// c" ++ [133]%N)).
-Eval vm_compute in ("<<<M151>>>" ++ check (runes_of_ascii "packet  float{ }
 ")).
-Eval vm_compute in ("<<<M3166>>>" ++ check (runes_of_ascii "options { // a
- }")).
+Eval vm_compute in ("<<<M1446>>>" ++ check (runes_of_ascii "
+packet
+    falsey { Header@calculatedFrom(""packet""  ) , char[")).
+Eval vm_compute in ("<<<M2665>>>" ++ check (runes_of_ascii "options { a = true; b = false; c = '0'; d = ""s""; e = 007; }")).
+Eval vm_compute in ("<<<M3372>>>" ++ check (runes_of_ascii "packet x { @rightPad
+// c
+( ) repeat roots Logon `doc` , }")).
+Eval vm_compute in ("<<<M824>>>" ++ check (runes_of_ascii "options
+    { float	=
+// " ++ [128512]%N ++ runes_of_ascii " emoji
+// @lengthOf(
+string }
+")).
+Eval vm_compute in ("<<<M327>>>" ++ check (runes_of_ascii "options {
+_x = 0
+; As = zchar[ 4294967296 ] ; } //x")).
+Eval vm_compute in ("<<<M3769>>>" ++ check (runes_of_ascii "root
+	packet
+
+    A{ u8  x
+	`a
+    b
+  c`
+, }
+")).
+Eval vm_compute in ("<<<M755>>>" ++ check (runes_of_ascii "MetaData
+u8x{ a1
+float// trailing space 
+, }
+")).
+Eval vm_compute in ("<<<M687>>>" ++ check (runes_of_ascii "packet leftPad { u64 Foo
+,
+// c
+// a // b
+}
+")).
+Eval vm_compute in ("<<<M4166>>>" ++ check (runes_of_ascii "
+packet
+    A
+
+{
+	u8
+
+x
+
+`d" ++ [133]%N ++ runes_of_ascii "`,	// c" ++ [133]%N ++ runes_of_ascii "
+	}
+")).
+Eval vm_compute in ("<<<M3194>>>" ++ check (runes_of_ascii "root packet u128
+// c
+{ chars `it's` , }")).
+Eval vm_compute in ("<<<M2560>>>" ++ check (runes_of_ascii "packet A { repeat u8 x @lengthOf(y), }")).
+Eval vm_compute in ("<<<M2803>>>" ++ check (runes_of_ascii "]$_nDRt.|X+""9273[j3IdN7 pv0zmf0e*8[2")).
+Eval vm_compute in ("<<<M56>>>" ++ check (runes_of_ascii "// `tick` ""quote"" 'q'
+
+/// triple
+")).
+Eval vm_compute in ("<<<M2733>>>" ++ check (runes_of_ascii "}6.&v:_D^b!EF*T3wXu*H*=10%2uRO\IT")).
+Eval vm_compute in ("<<<M4469>>>" ++ check (runes_of_ascii "
+
+  packet A{u8
+x`d `,	// c 
+	}")).
+Eval vm_compute in ("<<<M3077>>>" ++ check (runes_of_ascii "packet A {
+ u8 x `d" ++ [133]%N ++ runes_of_ascii "`, // c" ++ [133]%N ++ runes_of_ascii "
+}")).
+Eval vm_compute in ("<<<M463>>>" ++ check (runes_of_ascii "packet chars { i64 pack , }
+")).
+Eval vm_compute in ("<<<M3031>>>" ++ check (runes_of_ascii "packet A {
+    u8 x `x
+`,
+}")).
+Eval vm_compute in ("<<<M2579>>>" ++ check (runes_of_ascii "packet A { char[ x ] y, }")).
+Eval vm_compute in ("<<<M2597>>>" ++ check (runes_of_ascii "packet A { B { u8 x, } }")).
+Eval vm_compute in ("<<<M3719>>>" ++ check (runes_of_ascii "options {
+    a = 1;
+}")).
+Eval vm_compute in ("<<<M2645>>>" ++ check (runes_of_ascii "MetaData M { u8 x, }")).
+Eval vm_compute in ("<<<M2670>>>" ++ check (runes_of_ascii "options options { }")).
+Eval vm_compute in ("<<<M3070>>>" ++ check (runes_of_ascii "packet A {
+}
+// c" ++ [160]%N)).
+Eval vm_compute in ("<<<M4506>>>" ++ check (runes_of_ascii "MetaData zchar {
+}")).
+Eval vm_compute in ("<<<M3138>>>" ++ check (runes_of_ascii "packet A {
+}// c" ++ [6158]%N)).
 Eval vm_compute in ("<<<M233>>>" ++ check (runes_of_ascii "
 options { }
 ")).
-Eval vm_compute in ("<<<M2559>>>" ++ check (runes_of_ascii """" ++ [233]%N ++ runes_of_ascii """ `" ++ [21517]%N ++ runes_of_ascii "` // " ++ [252]%N)).
-Eval vm_compute in ("<<<M3908>>>" ++ check (runes_of_ascii "/// triple")).
-Eval vm_compute in ("<<<M1680>>>" ++ check (runes_of_ascii "options")).
-Eval vm_compute in ("<<<M2558>>>" ++ check (runes_of_ascii "// " ++ [233]%N ++ runes_of_ascii "
-" ++ [21517]%N)).
-Eval vm_compute in ("<<<M3059>>>" ++ check (runes_of_ascii "// c ")).
-Eval vm_compute in ("<<<M2516>>>" ++ check (runes_of_ascii """\\""")).
-Eval vm_compute in ("<<<M2525>>>" ++ check (runes_of_ascii "`""`")).
-Eval vm_compute in ("<<<M2520>>>" ++ check (runes_of_ascii "``")).
-Eval vm_compute in ("<<<M2799>>>" ++ check (runes_of_ascii "J")).
+Eval vm_compute in ("<<<M2225>>>" ++ check (runes_of_ascii "options
+{ }")).
+Eval vm_compute in ("<<<M1685>>>" ++ check (runes_of_ascii "options {")).
+Eval vm_compute in ("<<<M2449>>>" ++ check (runes_of_ascii "trueish")).
+Eval vm_compute in ("<<<M4140>>>" ++ check (runes_of_ascii "// c" ++ [133]%N ++ runes_of_ascii "
+")).
+Eval vm_compute in ("<<<M3099>>>" ++ check (runes_of_ascii "// c" ++ [8233]%N)).
+Eval vm_compute in ("<<<M2546>>>" ++ check (runes_of_ascii "a
+b")).
+Eval vm_compute in ("<<<M2550>>>" ++ check (runes_of_ascii "a" ++ [12]%N ++ runes_of_ascii "b")).
+Eval vm_compute in ("<<<M2684>>>" ++ check (runes_of_ascii "		")).
